@@ -120,26 +120,35 @@ theorem matching_eq : ∀ (gs : List Group) (a : Ip), WFGroups gs → bytesOk a.
 
 /-! ### coupling of the model state with what the checker remembers -/
 
-def lcore (x : Spec.LiveS) : Nat × Ip × Role × Nat × Nat × List Cap :=
-  (x.sid, x.addr, x.role, x.cfg.localAsn, x.cfg.hold, x.cfg.caps)
-def score (s : Sess) : Nat × Ip × Role × Nat × Nat × List Cap :=
-  (s.sid, s.addr, s.role, s.asn, s.hold, s.caps)
+def lcore (x : Spec.LiveS) : Nat × Ip × Role × Nat × Nat × List Cap × Nat :=
+  (x.sid, x.addr, x.role, x.cfg.localAsn, x.cfg.hold, x.cfg.caps, x.cfg.expected)
+def score (s : Sess) : Nat × Ip × Role × Nat × Nat × List Cap × Nat :=
+  (s.sid, s.addr, s.role, s.asn, s.hold, s.caps, s.expected)
 
 def knownFor (st : St) (e : Ip × Peer) : Spec.Known := ⟨e.1, e.2.cfg, peerRole e.2.cfg st.confed⟩
 
-structure Coupled (gl : GlobalCfg) (groups : List Group) (st : St) (σ : Spec.S) : Prop where
+def hitClauses : List String := [Spec.hitStatic, Spec.hitDynamic, Spec.hitVanished]
+
+/-- `adm` = some shutdown / reset / disable / delete has been issued so far -/
+structure Coupled (gl : GlobalCfg) (groups : List Group) (adm : Bool) (st : St) (σ : Spec.S) : Prop where
   glob : st.asn = gl.asn ∧ st.rid = gl.rid ∧ st.confed = gl.confed ∧ st.groups = groups
   rows : σ.rows = snapshot st
   next : σ.nextSid = st.nextSid
   live : σ.live.map lcore = st.live.map score
   knownCur : ∀ kn ∈ σ.known, ∃ e ∈ st.peers, kn = knownFor st e
   knownAll : ∀ e ∈ st.peers, ∃ kn ∈ σ.known, kn.addr = e.1
-  healthy : ∀ x ∈ σ.live, x.closing = false →
+  /-- a connection that is neither closing nor at a written-off address holds its neighbour's slot -/
+  healthy : ∀ x ∈ σ.live, x.closing = false → x.addr ∉ σ.poison →
     ∃ p, plookup x.addr st.peers = some p ∧ (st.ctx p.ctx).get x.role = some x.sid
   uniq : ∀ s1 ∈ st.live, ∀ s2 ∈ st.live, s1.ctx = s2.ctx → s1.role = s2.role → s1.sid ≠ s2.sid →
-    ∀ x ∈ σ.live, (x.sid = s1.sid ∨ x.sid = s2.sid) → x.closing = true
+    s1.addr ∉ σ.poison → ∀ x ∈ σ.live, (x.sid = s1.sid ∨ x.sid = s2.sid) → x.closing = true
+  /-- a session with a close reason waiting is known to the checker as closing -/
+  doomed : ∀ s ∈ st.live, s.doom.isSome = true → ∀ x ∈ σ.live, x.sid = s.sid → x.closing = true
+  /-- before the first tear-down nothing is closing, nothing has been noted -/
+  quiet : adm = false → (∀ x ∈ σ.live, x.closing = false) ∧ σ.hit = none ∧ σ.poison = []
+  hitOk : ∀ k c, σ.hit = some (k, c) → c ∈ hitClauses
 
-theorem knownOf_cur {gl groups st σ} (hc : Coupled gl groups st σ) (e : Ip × Peer) (he : e ∈ st.peers)
+theorem knownOf_cur {gl groups adm st σ} (hc : Coupled gl groups adm st σ) (e : Ip × Peer) (he : e ∈ st.peers)
     (hk : (st.peers.map (·.1)).Nodup) : Spec.knownOf σ.known e.1 = some (knownFor st e) := by
   obtain ⟨kn, hkn, ha⟩ := hc.knownAll e he
   unfold Spec.knownOf
@@ -301,19 +310,25 @@ theorem dynRows_ok (st : St) (σl : List Spec.LiveS) (hi : Inv st) (hl : σl.map
   · left; simpa using hd
 
 
+
 /-! ### one step of the checker against one step of the model -/
 
-def KnownFail (v : Spec.Verdict) : Prop :=
-  ∃ k, v = .fail k "accepted-while-closing-connection-same-direction"
-
-theorem rowOf_coupled {gl groups st σ} (hc : Coupled gl groups st σ) (hi : Inv st) (a : Ip) :
+theorem rowOf_coupled {gl groups adm st σ} (hc : Coupled gl groups adm st σ) (hi : Inv st) (a : Ip) :
     Spec.rowOf σ.rows a = (plookup a st.peers).map (fun p => snapRow st (a, p)) := by
   rw [hc.rows]; exact rowOf_snapshot st hi.core.keys a
 
+theorem contains_false {a : Ip} {l : List Ip} (h : a ∉ l) : l.contains a = false := by
+  cases hh : l.contains a with
+  | false => rfl
+  | true => exact absurd (List.contains_iff_mem.mp hh) h
+
+theorem contains_true {a : Ip} {l : List Ip} (h : a ∈ l) : l.contains a = true :=
+  List.contains_iff_mem.mpr h
+
 /-- a rejected connection: nothing changes, and the checker is satisfied provided the rejection
     was one of the permitted ones -/
-theorem sim_reject (gl : GlobalCfg) (groups : List Group) (st : St) (σ : Spec.S) (a : Ip) (role : Role) (k : Nat)
-    (hc : Coupled gl groups st σ) (hi : Inv st)
+theorem sim_reject (gl : GlobalCfg) (groups : List Group) (adm : Bool) (st : St) (σ : Spec.S) (a : Ip) (role : Role) (k : Nat)
+    (hc : Coupled gl groups adm st σ) (hi : Inv st)
     (h1 : ∀ p, plookup a st.peers = some p → p.adminDown = false →
       ∃ x ∈ σ.live, x.addr = a ∧ x.role = role)
     (h2 : plookup a st.peers = none → Spec.coveringGroups groups a = []) :
@@ -321,14 +336,14 @@ theorem sim_reject (gl : GlobalCfg) (groups : List Group) (st : St) (σ : Spec.S
   unfold Spec.checkConnect
   simp only
   have hrow := rowOf_coupled hc hi a
-  have c1 : Spec.imp ((Spec.rowOf σ.rows a).isSome && decide ((Spec.rowOf σ.rows a).map (·.adminDown) = some false))
+  have c1 : Spec.imp (!σ.poison.contains a && (Spec.rowOf σ.rows a).isSome && decide ((Spec.rowOf σ.rows a).map (·.adminDown) = some false))
       (!((Spec.liveFor σ.live a).filter fun s => s.role = role).isEmpty) = true := by
     unfold Spec.imp
     rw [hrow]
     cases hl : plookup a st.peers with
     | none => simp
     | some p =>
-      simp only [Option.map_some, Option.isSome_some, Bool.true_and, snapRow]
+      simp only [Option.map_some, Option.isSome_some, Bool.and_true, snapRow]
       by_cases had : p.adminDown = false
       · obtain ⟨x, hx, hxa, hxr⟩ := h1 p hl had
         have : x ∈ (Spec.liveFor σ.live a).filter fun s => s.role = role := by
@@ -347,7 +362,6 @@ theorem sim_reject (gl : GlobalCfg) (groups : List Group) (st : St) (σ : Spec.S
   have c3 : (snapshot st == σ.rows) = true := by rw [hc.rows]; simp
   simp only [c1, c2, c3, Spec.firstFail, decide_true]
 
-
 theorem snapshot_open_has (st : St) (a : Ip) (p : Peer) (role : Role) (hk : (st.peers.map (·.1)).Nodup)
     (hl : plookup a st.peers = some p) :
     (Spec.rowOf (snapshot (openSession st a p role).1) a).isSome = true := by
@@ -357,33 +371,39 @@ theorem snapshot_open_has (st : St) (a : Ip) (p : Peer) (role : Role) (hk : (st.
 /-- the new spec-side record of an accepted session -/
 def newLive (st : St) (a : Ip) (p : Peer) (role : Role) : Spec.LiveS := ⟨st.nextSid, a, role, false, p.cfg⟩
 
-theorem coupled_open (gl : GlobalCfg) (groups : List Group) (st : St) (σ : Spec.S) (a : Ip) (p : Peer) (role : Role)
-    (hc : Coupled gl groups st σ) (hi : InvCore st) (hl : plookup a st.peers = some p)
+/-- coupling after `openSession`: either nobody of that context and direction is connected, or the
+    address has been written off -/
+theorem coupled_open (gl : GlobalCfg) (groups : List Group) (adm : Bool) (st : St) (σ : Spec.S) (a : Ip) (p : Peer) (role : Role)
+    (hc : Coupled gl groups adm st σ) (hi : InvCore st) (hl : plookup a st.peers = some p)
     (hfree : (st.ctx p.ctx).get role = none)
-    (hnone : ∀ s ∈ st.live, s.ctx = p.ctx → s.role = role → False) (known' : List Spec.Known)
-    (hk1 : ∀ kn ∈ known', ∃ e ∈ st.peers, kn = knownFor st e) (hk2 : ∀ e ∈ st.peers, ∃ kn ∈ known', kn.addr = e.1) :
-    Coupled gl groups (openSession st a p role).1
+    (known' : List Spec.Known) (poison' : List Ip) (hit' : Option (Nat × String))
+    (hk1 : ∀ kn ∈ known', ∃ e ∈ st.peers, kn = knownFor st e) (hk2 : ∀ e ∈ st.peers, ∃ kn ∈ known', kn.addr = e.1)
+    (hsub : ∀ x ∈ σ.poison, x ∈ poison')
+    (hnone : (∀ s ∈ st.live, s.ctx = p.ctx → s.role = role → False) ∨ a ∈ poison')
+    (hq : adm = false → hit' = none ∧ poison' = [])
+    (hh : ∀ k c, hit' = some (k, c) → c ∈ hitClauses) :
+    Coupled gl groups adm (openSession st a p role).1
       { rows := snapshot (openSession st a p role).1, known := known'
-        live := σ.live ++ [newLive st a p role], nextSid := st.nextSid + 1 } := by
-  obtain ⟨f1, f2, f3, g1, g2, g3, g4, s, f4, s1, s2, s3, s4, s5, s6, s7, s8⟩ := openSession_fields st a p role
+        live := σ.live ++ [newLive st a p role], nextSid := st.nextSid + 1, poison := poison', hit := hit' } := by
+  obtain ⟨f1, f2, f3, g1, g2, g3, g4, s, f4, s1, s2, s3, s4, s5, s6, s7, s8, s9⟩ := openSession_fields st a p role
   have hm := plookup_mem a p st.peers hl
   have hp := hi.ctxLt _ hm
   have hctx := ctx_openSession st a p role hp
   have hkf : ∀ e, knownFor (openSession st a p role).1 e = knownFor st e := by
     intro e; simp only [knownFor, g3]
   refine ⟨⟨by rw [g1]; exact hc.glob.1, by rw [g2]; exact hc.glob.2.1, by rw [g3]; exact hc.glob.2.2.1,
-    by rw [g4]; exact hc.glob.2.2.2⟩, rfl, f3.symm, ?_, ?_, ?_, ?_, ?_⟩
+    by rw [g4]; exact hc.glob.2.2.2⟩, rfl, f3.symm, ?_, ?_, ?_, ?_, ?_, ?_, ?_, hh⟩
   · simp only [List.map_append, hc.live, f4, List.map_cons, List.map_nil]
     congr 1
-    simp only [lcore, score, newLive, s1, s2, s3, s6, s7, s8]
+    simp only [lcore, score, newLive, s1, s2, s3, s6, s7, s8, s9]
   · intro kn hkn
     obtain ⟨e, he, hke⟩ := hk1 kn hkn
     exact ⟨e, by rw [f1]; exact he, by rw [hkf]; exact hke⟩
   · intro e he; rw [f1] at he; exact hk2 e he
-  · intro x hx hxc
+  · intro x hx hxc hxp
     simp only [List.mem_append, List.mem_cons, List.mem_nil_iff, or_false] at hx
     rcases hx with hx | hx
-    · obtain ⟨q, hq1, hq2⟩ := hc.healthy x hx hxc
+    · obtain ⟨q, hq1, hq2⟩ := hc.healthy x hx hxc (fun h => hxp (hsub _ h))
       refine ⟨q, by rw [f1]; exact hq1, ?_⟩
       rw [hctx]
       by_cases hqc : q.ctx = p.ctx
@@ -396,108 +416,168 @@ theorem coupled_open (gl : GlobalCfg) (groups : List Group) (st : St) (σ : Spec
     · subst hx
       refine ⟨p, by rw [f1]; exact hl, ?_⟩
       rw [hctx]; simp [newLive, get_set]
-  · intro t1 h1 t2 h2 hct hrl hne x hx hxs
+  · intro t1 h1 t2 h2 hct hrl hne hnp x hx hxs
     rw [f4] at h1 h2
     simp only [List.mem_append, List.mem_cons, List.mem_nil_iff, or_false] at h1 h2 hx
+    have clean : ∀ t ∈ st.live, t.ctx = p.ctx → t.role = role → t.addr ∉ poison' → False := by
+      intro t ht htc htr htp
+      rcases hnone with hn | hn
+      · exact hn t ht htc htr
+      · exact htp (by rw [hi.owner t ht (a, p) hm htc]; exact hn)
     rcases h1 with h1 | h1 <;> rcases h2 with h2 | h2
     · rcases hx with hx | hx
-      · exact hc.uniq t1 h1 t2 h2 hct hrl hne x hx hxs
+      · exact hc.uniq t1 h1 t2 h2 hct hrl hne (fun h => hnp (hsub _ h)) x hx hxs
       · exfalso
         subst hx
         simp only [newLive] at hxs
         rcases hxs with e | e
         · have := (hi.liveLt t1 h1).1; omega
         · have := (hi.liveLt t2 h2).1; omega
-    · exfalso; subst h2; exact hnone t1 h1 (by rw [hct, s4]) (by rw [hrl, s3])
-    · exfalso; subst h1; exact hnone t2 h2 (by rw [← hct, s4]) (by rw [← hrl, s3])
-    · exfalso; subst h1; subst h2; exact hne rfl
+    · exfalso; exact clean t1 h1 (by rw [hct, h2, s4]) (by rw [hrl, h2, s3]) hnp
+    · exfalso
+      have hc2 : t2.ctx = p.ctx := by rw [← hct, h1, s4]
+      have haddr : t2.addr = t1.addr := by rw [h1, s2]; exact hi.owner t2 h2 (a, p) hm hc2
+      exact clean t2 h2 hc2 (by rw [← hrl, h1, s3]) (by rw [haddr]; exact hnp)
+    · exfalso; rw [h1, h2] at hne; exact hne rfl
+  · intro t ht hd x hx hxs
+    rw [f4] at ht
+    simp only [List.mem_append, List.mem_cons, List.mem_nil_iff, or_false] at ht hx
+    rcases ht with ht | ht
+    · rcases hx with hx | hx
+      · exact hc.doomed t ht hd x hx hxs
+      · exfalso; subst hx; simp only [newLive] at hxs
+        have := (hi.liveLt t ht).1; omega
+    · rw [ht, s5] at hd; cases hd
+  · intro ha
+    obtain ⟨q1, _, _⟩ := hc.quiet ha
+    refine ⟨?_, (hq ha).1, (hq ha).2⟩
+    intro x hx
+    simp only [List.mem_append, List.mem_cons, List.mem_nil_iff, or_false] at hx
+    rcases hx with hx | hx
+    · exact q1 x hx
+    · subst hx; rfl
 
+theorem recordHit_ok (σ : Spec.S) (k : Nat) (c : String) (as : List Ip) (hc : c ∈ hitClauses)
+    (h : ∀ k c, σ.hit = some (k, c) → c ∈ hitClauses) :
+    ∀ k' c', (σ.recordHit k c as).hit = some (k', c') → c' ∈ hitClauses := by
+  intro k' c' he
+  simp only [Spec.S.recordHit] at he
+  cases hh : σ.hit with
+  | none => rw [hh] at he; simp only [Option.some.injEq, Prod.mk.injEq] at he; rw [← he.2]; exact hc
+  | some x => rw [hh] at he; simp only at he; exact h k' c' (by rw [hh, he])
 
-theorem sim_accept_known (gl : GlobalCfg) (groups : List Group) (st : St) (σ : Spec.S) (a : Ip) (role : Role) (k : Nat)
-    (hc : Coupled gl groups st σ) (hi : Inv st) (p : Peer) (hl : plookup a st.peers = some p)
+theorem sim_accept_known (gl : GlobalCfg) (groups : List Group) (adm : Bool) (st : St) (σ : Spec.S) (a : Ip) (role : Role) (k : Nat)
+    (hc : Coupled gl groups adm st σ) (hi : Inv st) (p : Peer) (hl : plookup a st.peers = some p)
     (had : p.adminDown = false) (hfree : (st.ctx p.ctx).get role = none) :
-    (∃ σ', Spec.checkConnect gl groups k σ a role
+    ∃ σ', Spec.checkConnect gl groups k σ a role
         { res := (openSession st a p role).2, snap := snapshot (openSession st a p role).1 } = (.ok, σ', false) ∧
-        Coupled gl groups (openSession st a p role).1 σ') ∨
-    KnownFail (Spec.checkConnect gl groups k σ a role
-        { res := (openSession st a p role).2, snap := snapshot (openSession st a p role).1 }).1 := by
+        Coupled gl groups adm (openSession st a p role).1 σ' := by
   have hm := plookup_mem a p st.peers hl
   have hrow : Spec.rowOf σ.rows a = some (snapRow st (a, p)) := by rw [rowOf_coupled hc hi a, hl]; rfl
-  -- no healthy connection of that direction exists: the slot is free
-  have hsame : ∀ x ∈ (Spec.liveFor σ.live a).filter (fun s => s.role = role), x.closing = true := by
-    intro x hx
-    simp only [Spec.liveFor, List.mem_filter, decide_eq_true_eq] at hx
-    obtain ⟨⟨hx1, hx2⟩, hx3⟩ := hx
-    cases hcl : x.closing with
-    | true => rfl
-    | false =>
-      exfalso
-      obtain ⟨q, hq1, hq2⟩ := hc.healthy x hx1 hcl
-      rw [hx2, hl] at hq1; injection hq1 with hq1
-      rw [← hq1, hx3, hfree] at hq2; cases hq2
-  have hany : (((Spec.liveFor σ.live a).filter (fun s => s.role = role)).any fun s => !s.closing) = false := by
-    rw [Bool.eq_false_iff]; intro h
-    simp only [List.any_eq_true, Bool.not_eq_true'] at h
-    obtain ⟨x, hx, hxc⟩ := h
-    rw [hsame x hx] at hxc; cases hxc
-  rw [openSession_res]
-  unfold Spec.checkConnect
-  simp only [hrow, snapRow, had, Bool.false_eq_true, if_false, hany]
-  by_cases hemp : ((Spec.liveFor σ.live a).filter (fun s => s.role = role)).isEmpty = true
-  · left
-    have hknown := knownOf_cur hc (a, p) hm hi.core.keys
-    simp only at hknown
-    simp only [hemp, Bool.not_true, Bool.false_eq_true, if_false, hc.next, bne_self_eq_false, hknown]
-    -- nobody of this context and direction is connected
-    have hnone : ∀ s ∈ st.live, s.ctx = p.ctx → s.role = role → False := by
-      intro s hs hsc hsr
-      have haddr := hi.core.owner s hs (a, p) hm hsc
-      obtain ⟨x, hx, hxs⟩ := live_mem_of_model hc.live s hs
-      simp only [lcore, score, Prod.mk.injEq] at hxs
-      have : x ∈ (Spec.liveFor σ.live a).filter (fun s => s.role = role) := by
-        simp only [Spec.liveFor, List.mem_filter, decide_eq_true_eq]
-        exact ⟨⟨hx, by rw [hxs.2.1, haddr]⟩, by rw [hxs.2.2.1, hsr]⟩
-      rw [List.isEmpty_iff.mp hemp] at this; simp at this
-    have hcoup := coupled_open gl groups st σ a p role hc hi.core hl hfree hnone σ.known hc.knownCur hc.knownAll
-    have hinv' : Inv (openSession st a p role).1 :=
-      ⟨inv_openSession st a p role hi.core hm, dyn_openSession st a p role hi.dyn⟩
-    refine ⟨_, ?_, hcoup⟩
-    have hall : ∀ e ∈ ([ (decide (p.cfg = (knownFor st (a, p)).cfg) && decide (peerRole p.cfg st.confed = (knownFor st (a, p)).role),
+  have hknown := knownOf_cur hc (a, p) hm hi.core.keys
+  simp only at hknown
+  have hinv' : Inv (openSession st a p role).1 :=
+    ⟨inv_openSession st a p role hi.core hm, dyn_openSession st a p role hi.dyn⟩
+  -- the checks that do not depend on who else is connected
+  have hall : (σ.live ++ [(⟨st.nextSid, a, role, false, p.cfg⟩ : Spec.LiveS)]).map lcore = (openSession st a p role).1.live.map score →
+      ∀ e ∈ ([ (decide (p.cfg = (knownFor st (a, p)).cfg) && decide (peerRole p.cfg st.confed = (knownFor st (a, p)).role),
             "neighbour-configuration-changed") ]
           ++ Spec.sessOk gl p.cfg (peerRole p.cfg st.confed)
               { role := peerRole p.cfg st.confed, localAsn := p.cfg.localAsn, caps := p.cfg.caps, pl := p.cfg.pl
                 cluster := clusterOf (peerRole p.cfg st.confed) p.cfg st.rid
                 confedId := confedIdOf st.confed, restarting := false }
           ++ [ ((Spec.rowOf (snapshot (openSession st a p role).1) a).isSome, "accepted-without-neighbour-state"),
-               (Spec.dynRowsHaveConn (snapshot (openSession st a p role).1)
-                  (σ.live ++ [⟨st.nextSid, a, role, false, p.cfg⟩]), "dynamic-neighbour-without-connection") ]),
+               (Spec.dynRowsHaveConn (snapshot (openSession st a p role).1) (σ.live ++ [⟨st.nextSid, a, role, false, p.cfg⟩]), "dynamic-neighbour-without-connection") ]),
         e.1 = true := by
-      intro e he
-      simp only [List.mem_append, List.mem_cons, List.mem_nil_iff, or_false] at he
-      rcases he with (rfl | he) | rfl | rfl
-      · simp [knownFor]
-      · exact sessOk_open gl st a p role ⟨hc.glob.2.1, hc.glob.2.2.1⟩ e he
-      · exact snapshot_open_has st a p role hi.core.keys hl
-      · exact dynRows_ok _ _ hinv' hcoup.live
-    rw [all_true hall k]
+    intro hL e he
+    simp only [List.mem_append, List.mem_cons, List.mem_nil_iff, or_false] at he
+    rcases he with (rfl | he) | rfl | rfl
+    · simp [knownFor]
+    · exact sessOk_open gl st a p role ⟨hc.glob.2.1, hc.glob.2.2.1⟩ e he
+    · exact snapshot_open_has st a p role hi.core.keys hl
+    · exact dynRows_ok _ _ hinv' hL
+  rw [openSession_res]
+  unfold Spec.checkConnect
+  simp only [hrow, snapRow, had, Bool.false_eq_true, if_false, hc.next, bne_self_eq_false, hknown]
+  by_cases hp : a ∈ σ.poison
+  · -- the address has been written off: uniqueness is not judged
+    have hpc := contains_true hp
+    have hcoup := coupled_open gl groups adm st σ a p role hc hi.core hl hfree σ.known σ.poison σ.hit hc.knownCur hc.knownAll
+      (fun _ h => h) (Or.inr hp) (fun ha => ⟨(hc.quiet ha).2.1, (hc.quiet ha).2.2⟩) hc.hitOk
+    refine ⟨_, ?_, hcoup⟩
+    simp only [hpc, Bool.not_true, Bool.false_and, Bool.false_eq_true, if_false]
+    rw [all_true (hall hcoup.live) k]
     rfl
-  · right
-    have : ((Spec.liveFor σ.live a).filter (fun s => s.role = role)).isEmpty = false := by
-      cases h : ((Spec.liveFor σ.live a).filter (fun s => s.role = role)).isEmpty <;> simp_all
-    simp only [this, Bool.not_false, if_true]
-    exact ⟨k, rfl⟩
-
+  · have hpc := contains_false hp
+    -- no healthy connection of that direction exists: the slot is free
+    have hsame : ∀ x ∈ (Spec.liveFor σ.live a).filter (fun s => s.role = role), x.closing = true := by
+      intro x hx
+      simp only [Spec.liveFor, List.mem_filter, decide_eq_true_eq] at hx
+      obtain ⟨⟨hx1, hx2⟩, hx3⟩ := hx
+      cases hcl : x.closing with
+      | true => rfl
+      | false =>
+        exfalso
+        obtain ⟨q, hq1, hq2⟩ := hc.healthy x hx1 hcl (by rw [hx2]; exact hp)
+        rw [hx2, hl] at hq1; injection hq1 with hq1
+        rw [← hq1, hx3, hfree] at hq2; cases hq2
+    have hany : (((Spec.liveFor σ.live a).filter (fun s => s.role = role)).any fun s => !s.closing) = false := by
+      rw [Bool.eq_false_iff]; intro h
+      simp only [List.any_eq_true, Bool.not_eq_true'] at h
+      obtain ⟨x, hx, hxc⟩ := h
+      rw [hsame x hx] at hxc; cases hxc
+    simp only [hpc, Bool.not_false, Bool.true_and, hany, Bool.false_eq_true, if_false]
+    by_cases hemp : ((Spec.liveFor σ.live a).filter (fun s => s.role = role)).isEmpty = true
+    · -- nobody of this context and direction is connected
+      have hnone : ∀ s ∈ st.live, s.ctx = p.ctx → s.role = role → False := by
+        intro s hs hsc hsr
+        have haddr := hi.core.owner s hs (a, p) hm hsc
+        obtain ⟨x, hx, hxs⟩ := live_mem_of_model hc.live s hs
+        simp only [lcore, score, Prod.mk.injEq] at hxs
+        have : x ∈ (Spec.liveFor σ.live a).filter (fun s => s.role = role) := by
+          simp only [Spec.liveFor, List.mem_filter, decide_eq_true_eq]
+          exact ⟨⟨hx, by rw [hxs.2.1, haddr]⟩, by rw [hxs.2.2.1, hsr]⟩
+        rw [List.isEmpty_iff.mp hemp] at this; simp at this
+      have hcoup := coupled_open gl groups adm st σ a p role hc hi.core hl hfree σ.known σ.poison σ.hit hc.knownCur hc.knownAll
+        (fun _ h => h) (Or.inl hnone) (fun ha => ⟨(hc.quiet ha).2.1, (hc.quiet ha).2.2⟩) hc.hitOk
+      refine ⟨_, ?_, hcoup⟩
+      simp only [hemp, Bool.not_true, Bool.false_eq_true, if_false]
+      rw [all_true (hall hcoup.live) k]
+      rfl
+    · -- F16c: accepted next to a closing connection; noted, the address is written off
+      have hne : ((Spec.liveFor σ.live a).filter (fun s => s.role = role)).isEmpty = false := by
+        cases h : ((Spec.liveFor σ.live a).filter (fun s => s.role = role)).isEmpty <;> simp_all
+      have hadm : adm = true := by
+        cases hadm : adm with
+        | true => rfl
+        | false =>
+          exfalso
+          cases hh : (Spec.liveFor σ.live a).filter (fun s => s.role = role) with
+          | nil => rw [hh] at hne; simp at hne
+          | cons x t =>
+            have hx : x ∈ (Spec.liveFor σ.live a).filter (fun s => s.role = role) := by rw [hh]; simp
+            have h1 := hsame x hx
+            simp only [Spec.liveFor, List.mem_filter] at hx
+            rw [(hc.quiet hadm).1 x hx.1.1] at h1; cases h1
+      have hcoup := coupled_open gl groups adm st σ a p role hc hi.core hl hfree σ.known
+        ([a] ++ σ.poison) (σ.recordHit k Spec.hitStatic [a]).hit hc.knownCur hc.knownAll
+        (fun _ h => List.mem_append_right _ h) (Or.inr (by simp)) (fun ha => by rw [hadm] at ha; cases ha)
+        (recordHit_ok σ k _ [a] (by simp [hitClauses]) hc.hitOk)
+      refine ⟨_, ?_, hcoup⟩
+      simp only [hne, Bool.not_false, if_true]
+      rw [all_true (hall hcoup.live) k]
+      rfl
 
 /-! ### a new dynamic neighbour -/
 
-theorem coupled_addPeer (gl : GlobalCfg) (groups : List Group) (st st1 : St) (σ : Spec.S) (prm : Params)
-    (hc : Coupled gl groups st σ) (h : addPeer st prm = some st1) :
-    Coupled gl groups st1
+theorem coupled_addPeer (gl : GlobalCfg) (groups : List Group) (adm : Bool) (st st1 : St) (σ : Spec.S) (prm : Params)
+    (hc : Coupled gl groups adm st σ) (h : addPeer st prm = some st1) :
+    Coupled gl groups adm st1
       { σ with rows := snapshot st1, known := σ.known ++ [knownFor st1 (newPeer st prm)] } := by
   obtain ⟨hnone, rfl⟩ := addPeer_eq st prm st1 h
   have hkf : ∀ e, knownFor ({ st with peers := st.peers ++ [newPeer st prm], ctxs := st.ctxs ++ [{}] } : St) e = knownFor st e :=
     fun e => rfl
-  refine ⟨hc.glob, rfl, hc.next, hc.live, ?_, ?_, ?_, hc.uniq⟩
+  refine ⟨hc.glob, rfl, hc.next, hc.live, ?_, ?_, ?_, hc.uniq, hc.doomed, hc.quiet, hc.hitOk⟩
   · intro kn hkn
     simp only [List.mem_append, List.mem_cons, List.mem_nil_iff, or_false] at hkn
     rcases hkn with hkn | hkn
@@ -510,27 +590,26 @@ theorem coupled_addPeer (gl : GlobalCfg) (groups : List Group) (st st1 : St) (σ
       exact ⟨kn, List.mem_append_left _ hkn, hka⟩
     · have : e = newPeer st prm := by simpa using he
       exact ⟨knownFor st e, by rw [this]; simp [hkf], rfl⟩
-  · intro x hx hxc
-    obtain ⟨q, hq1, hq2⟩ := hc.healthy x hx hxc
+  · intro x hx hxc hxp
+    obtain ⟨q, hq1, hq2⟩ := hc.healthy x hx hxc hxp
     refine ⟨q, ?_, ?_⟩
     · show plookup x.addr (st.peers ++ [newPeer st prm]) = some q
       rw [plookup_append, hq1]
     · rw [ctx_append st _ rfl]; exact hq2
 
-theorem sim_accept_dynamic (gl : GlobalCfg) (groups : List Group) (st st1 : St) (σ : Spec.S) (a : Ip) (role : Role) (k : Nat)
-    (hc : Coupled gl groups st σ) (hi : Inv st) (hcid : confedIdOk gl.confed) (g : Group) (p : Peer)
+theorem sim_accept_dynamic (gl : GlobalCfg) (groups : List Group) (adm : Bool) (st st1 : St) (σ : Spec.S) (a : Ip) (role : Role) (k : Nat)
+    (hc : Coupled gl groups adm st σ) (hi : Inv st) (hcid : confedIdOk gl.confed) (g : Group) (p : Peer)
     (hlk : plookup a st.peers = none) (hcov : Spec.coveringGroups groups a = [g])
     (h1 : addPeer st (paramsOfGroup g a) = some st1) (h2 : plookup a st1.peers = some p) :
     ∃ σ', Spec.checkConnect gl groups k σ a role
         { res := (openSession st1 a p role).2, snap := snapshot (openSession st1 a p role).1 } = (.ok, σ', false) ∧
-      Coupled gl groups (openSession st1 a p role).1 σ' := by
-  have hc1 := coupled_addPeer gl groups st st1 σ _ hc h1
+      Coupled gl groups adm (openSession st1 a p role).1 σ' := by
+  have hc1 := coupled_addPeer gl groups adm st st1 σ _ hc h1
   have hd : (newPeer st (paramsOfGroup g a)).2.cfg.dyn = true := by
     simp only [newPeer]; rw [build_dyn]; rfl
   have hcore1 := inv_addPeer st _ st1 h1 hi.core (Or.inl hd)
   have hinv' := inv_acceptDynamic st st1 g a role p hi h1 h2
   obtain ⟨_, heq⟩ := addPeer_eq st _ st1 h1
-  -- the neighbour found is the one just created
   have hp : p = (newPeer st (paramsOfGroup g a)).2 := by
     rw [heq] at h2
     have : plookup a (st.peers ++ [newPeer st (paramsOfGroup g a)]) = some p := h2
@@ -546,17 +625,13 @@ theorem sim_accept_dynamic (gl : GlobalCfg) (groups : List Group) (st st1 : St) 
     have hs' : s ∈ st.live := by rw [heq] at hs; exact hs
     have := (hi.core.liveLt s hs').2
     omega
-  have hcoup := coupled_open gl groups st1 _ a p role hc1 hcore1 h2 hfree hnone _ hc1.knownCur hc1.knownAll
   have hrow : Spec.rowOf σ.rows a = none := by rw [rowOf_coupled hc hi a, hlk]; rfl
   have hn1 : st1.nextSid = st.nextSid := by rw [heq]
   have hconf1 : st1.confed = st.confed := by rw [heq]
   have hrid1 : st1.rid = st.rid := by rw [heq]
-  refine ⟨_, ?_, hcoup⟩
-  rw [openSession_res]
-  unfold Spec.checkConnect
-  simp only [hrow, hcov, hn1, hc.next, bne_self_eq_false, Bool.false_eq_true, if_false]
   have hcfg : p.cfg = build (confedAdjust st.asn st.confed (paramsOfGroup g a)) st.asn := by rw [hp]; rfl
-  have hall : ∀ e ∈ (Spec.cfgOk gl (Spec.wantDynamic g) (decide (a.bytes.length = 16)) p.cfg (peerRole p.cfg st1.confed)
+  have hall : (σ.live ++ [(⟨st.nextSid, a, role, false, p.cfg⟩ : Spec.LiveS)]).map lcore = (openSession st1 a p role).1.live.map score →
+      ∀ e ∈ (Spec.cfgOk gl (Spec.wantDynamic g) (decide (a.bytes.length = 16)) p.cfg (peerRole p.cfg st1.confed)
         ++ Spec.sessOk gl p.cfg (peerRole p.cfg st1.confed)
             { role := peerRole p.cfg st1.confed, localAsn := p.cfg.localAsn, caps := p.cfg.caps, pl := p.cfg.pl
               cluster := clusterOf (peerRole p.cfg st1.confed) p.cfg st1.rid
@@ -565,7 +640,7 @@ theorem sim_accept_dynamic (gl : GlobalCfg) (groups : List Group) (st st1 : St) 
              (Spec.dynRowsHaveConn (snapshot (openSession st1 a p role).1)
                 (σ.live ++ [⟨st.nextSid, a, role, false, p.cfg⟩]), "dynamic-neighbour-without-connection") ]),
       e.1 = true := by
-    intro e he
+    intro hL e he
     simp only [List.mem_append, List.mem_cons, List.mem_nil_iff, or_false] at he
     rcases he with (he | he) | rfl | rfl
     · have := cfgOk_build st.asn st.rid st.confed (paramsOfGroup g a) (by rw [hc.glob.2.2.1]; exact hcid) e
@@ -581,20 +656,80 @@ theorem sim_accept_dynamic (gl : GlobalCfg) (groups : List Group) (st st1 : St) 
       rw [rowOf_snapshot _ (by rw [f1]; exact hcore1.keys), f1, h2]
       simp only [Option.map_some, snapRow, Option.some.injEq]
       rw [hcfg, build_dyn]; rfl
-    · have := dynRows_ok _ _ hinv' hcoup.live
-      simp only [newLive, hn1] at this
-      exact this
-  rw [all_true hall k]
-  simp only [Prod.mk.injEq, true_and, and_true]
-  congr 1
-  · simp only [knownFor, newPeer, paramsOfGroup, hconf1, hcfg]
-  · simp only [newLive, hn1]
-
+    · exact dynRows_ok _ _ hinv' hL
+  -- no connection of that address can be healthy: the address has no neighbour state
+  have hsame : ∀ x ∈ (Spec.liveFor σ.live a).filter (fun s => s.role = role), a ∉ σ.poison → x.closing = true := by
+    intro x hx hp'
+    simp only [Spec.liveFor, List.mem_filter, decide_eq_true_eq] at hx
+    cases hcl : x.closing with
+    | true => rfl
+    | false =>
+      exfalso
+      obtain ⟨q, hq1, _⟩ := hc.healthy x hx.1.1 hcl (by rw [hx.1.2]; exact hp')
+      rw [hx.1.2, hlk] at hq1; cases hq1
+  rw [openSession_res]
+  unfold Spec.checkConnect
+  simp only [hrow, hcov, hn1, hc.next, bne_self_eq_false, Bool.false_eq_true, if_false]
+  have hknownEq : knownFor st1 (newPeer st (paramsOfGroup g a)) = ⟨a, p.cfg, peerRole p.cfg st1.confed⟩ := by
+    simp only [knownFor, newPeer, paramsOfGroup, hconf1, hcfg]
+  by_cases hpo : a ∈ σ.poison
+  · have hpc := contains_true hpo
+    have hcoup := coupled_open gl groups adm st1 _ a p role hc1 hcore1 h2 hfree
+      (σ.known ++ [knownFor st1 (newPeer st (paramsOfGroup g a))]) σ.poison σ.hit hc1.knownCur hc1.knownAll
+      (fun _ h => h) (Or.inr hpo) (fun ha => ⟨(hc.quiet ha).2.1, (hc.quiet ha).2.2⟩) hc.hitOk
+    refine ⟨_, ?_, hcoup⟩
+    simp only [hpc, Bool.not_true, Bool.false_and, Bool.false_eq_true, if_false]
+    have hL := hcoup.live
+    simp only [newLive, hn1] at hL
+    rw [all_true (hall hL) k]
+    simp only [Prod.mk.injEq, true_and, and_true, newLive, hn1, hknownEq]
+  · have hpc := contains_false hpo
+    have hany : (((Spec.liveFor σ.live a).filter (fun s => s.role = role)).any fun s => !s.closing) = false := by
+      rw [Bool.eq_false_iff]; intro h
+      simp only [List.any_eq_true, Bool.not_eq_true'] at h
+      obtain ⟨x, hx, hxc⟩ := h
+      rw [hsame x hx hpo] at hxc; cases hxc
+    simp only [hpc, Bool.not_false, Bool.true_and, hany, Bool.false_eq_true, if_false]
+    by_cases hemp : ((Spec.liveFor σ.live a).filter (fun s => s.role = role)).isEmpty = true
+    · have hcoup := coupled_open gl groups adm st1 _ a p role hc1 hcore1 h2 hfree
+        (σ.known ++ [knownFor st1 (newPeer st (paramsOfGroup g a))]) σ.poison σ.hit hc1.knownCur hc1.knownAll
+        (fun _ h => h) (Or.inl hnone) (fun ha => ⟨(hc.quiet ha).2.1, (hc.quiet ha).2.2⟩) hc.hitOk
+      refine ⟨_, ?_, hcoup⟩
+      simp only [hemp, Bool.not_true, Bool.false_eq_true, if_false]
+      have hL := hcoup.live
+      simp only [newLive, hn1] at hL
+      rw [all_true (hall hL) k]
+      simp only [Prod.mk.injEq, true_and, and_true, newLive, hn1, hknownEq]
+    · have hne : ((Spec.liveFor σ.live a).filter (fun s => s.role = role)).isEmpty = false := by
+        cases h : ((Spec.liveFor σ.live a).filter (fun s => s.role = role)).isEmpty <;> simp_all
+      have hadm : adm = true := by
+        cases hadm : adm with
+        | true => rfl
+        | false =>
+          exfalso
+          cases hh : (Spec.liveFor σ.live a).filter (fun s => s.role = role) with
+          | nil => rw [hh] at hne; simp at hne
+          | cons x t =>
+            have hx : x ∈ (Spec.liveFor σ.live a).filter (fun s => s.role = role) := by rw [hh]; simp
+            have h1' := hsame x hx hpo
+            simp only [Spec.liveFor, List.mem_filter] at hx
+            rw [(hc.quiet hadm).1 x hx.1.1] at h1'; cases h1'
+      have hcoup := coupled_open gl groups adm st1 _ a p role hc1 hcore1 h2 hfree
+        (σ.known ++ [knownFor st1 (newPeer st (paramsOfGroup g a))])
+        ([a] ++ σ.poison) (σ.recordHit k Spec.hitDynamic [a]).hit hc1.knownCur hc1.knownAll
+        (fun _ h => List.mem_append_right _ h) (Or.inr (by simp)) (fun ha => by rw [hadm] at ha; cases ha)
+        (recordHit_ok σ k _ [a] (by simp [hitClauses]) hc.hitOk)
+      refine ⟨_, ?_, hcoup⟩
+      simp only [hne, Bool.not_false, if_true]
+      have hL := hcoup.live
+      simp only [newLive, hn1] at hL
+      rw [all_true (hall hL) k]
+      simp only [Prod.mk.injEq, true_and, and_true, newLive, hn1, hknownEq, Spec.S.recordHit]
 
 /-! ### connect -/
 
-theorem sim_amb (gl : GlobalCfg) (groups : List Group) (st : St) (σ : Spec.S) (a : Ip) (role : Role) (k : Nat)
-    (hc : Coupled gl groups st σ) (hi : Inv st) (hlk : plookup a st.peers = none)
+theorem sim_amb (gl : GlobalCfg) (groups : List Group) (adm : Bool) (st : St) (σ : Spec.S) (a : Ip) (role : Role) (k : Nat)
+    (hc : Coupled gl groups adm st σ) (hi : Inv st) (hlk : plookup a st.peers = none)
     (g1 g2 : Group) (rest : List Group) (hcov : Spec.coveringGroups groups a = g1 :: g2 :: rest) :
     Spec.checkConnect gl groups k σ a role
         { res := .acceptAmb st.nextSid (ssort (groupNames (g1 :: g2 :: rest))) true, snap := [] } = (.ok, σ, true) := by
@@ -603,20 +738,19 @@ theorem sim_amb (gl : GlobalCfg) (groups : List Group) (st : St) (σ : Spec.S) (
   simp only [hrow, hcov, Option.isSome_none, Bool.false_eq_true, if_false, List.length_cons]
   have hlen : ¬ (rest.length + 1 + 1 < 2) := by omega
   simp only [hlen, if_false]
-  have hset : Spec.checkConnect.sameSetS (ssort (groupNames (g1 :: g2 :: rest))) ((g1 :: g2 :: rest).map (·.name)) = true := by
-    simp only [Spec.checkConnect.sameSetS, Bool.and_eq_true, List.all_eq_true, List.contains_iff_mem]
+  have hset : Spec.sameSetS (ssort (groupNames (g1 :: g2 :: rest))) ((g1 :: g2 :: rest).map (·.name)) = true := by
+    simp only [Spec.sameSetS, Bool.and_eq_true, List.all_eq_true, List.contains_iff_mem]
     constructor
     · intro x hx; rw [mem_ssort] at hx; exact hx
     · intro x hx; rw [mem_ssort]; exact hx
   simp only [hc.next, hset, decide_true, Spec.firstFail]
 
-theorem sim_connect (gl : GlobalCfg) (groups : List Group) (st : St) (σ : Spec.S) (a : Ip) (role : Role) (k : Nat)
-    (hc : Coupled gl groups st σ) (hi : Inv st) (hwf : WFGroups groups) (ha : bytesOk a.bytes)
+theorem sim_connect (gl : GlobalCfg) (groups : List Group) (adm : Bool) (st : St) (σ : Spec.S) (a : Ip) (role : Role) (k : Nat)
+    (hc : Coupled gl groups adm st σ) (hi : Inv st) (hwf : WFGroups groups) (ha : bytesOk a.bytes)
     (hcid : confedIdOk gl.confed) (st' : St) (res : Res) (abort : Bool)
     (h : acceptConnection st a role = .ok (st', res, abort)) :
-    (∃ σ', Spec.checkConnect gl groups k σ a role { res := res, snap := if abort then [] else snapshot st' } = (.ok, σ', abort) ∧
-        (abort = false → Coupled gl groups st' σ')) ∨
-    KnownFail (Spec.checkConnect gl groups k σ a role { res := res, snap := if abort then [] else snapshot st' }).1 := by
+    ∃ σ', Spec.checkConnect gl groups k σ a role { res := res, snap := if abort then [] else snapshot st' } = (.ok, σ', abort) ∧
+        (abort = false → Coupled gl groups adm st' σ') ∧ (abort = true → σ' = σ) := by
   unfold acceptConnection at h
   cases hl : plookup a st.peers with
   | some p =>
@@ -624,10 +758,9 @@ theorem sim_connect (gl : GlobalCfg) (groups : List Group) (st : St) (σ : Spec.
     by_cases had : p.adminDown = true
     · simp only [had, if_true, Out.ok.injEq, Prod.mk.injEq] at h
       obtain ⟨rfl, rfl, rfl⟩ := h
-      left
-      refine ⟨σ, ?_, fun _ => hc⟩
+      refine ⟨σ, ?_, fun _ => hc, fun _ => rfl⟩
       simp only [Bool.false_eq_true, if_false]
-      apply sim_reject gl groups st σ a role k hc hi
+      apply sim_reject gl groups adm st σ a role k hc hi
       · intro q hq hqa; rw [hl] at hq; injection hq with hq; rw [← hq, had] at hqa; cases hqa
       · intro hn; rw [hl] at hn; cases hn
     · have had' : p.adminDown = false := by cases hh : p.adminDown <;> simp_all
@@ -635,10 +768,9 @@ theorem sim_connect (gl : GlobalCfg) (groups : List Group) (st : St) (σ : Spec.
       by_cases hs : ((st.ctx p.ctx).get role).isSome = true
       · simp only [hs, if_true, Out.ok.injEq, Prod.mk.injEq] at h
         obtain ⟨rfl, rfl, rfl⟩ := h
-        left
-        refine ⟨σ, ?_, fun _ => hc⟩
+        refine ⟨σ, ?_, fun _ => hc, fun _ => rfl⟩
         simp only [Bool.false_eq_true, if_false]
-        apply sim_reject gl groups st σ a role k hc hi
+        apply sim_reject gl groups adm st σ a role k hc hi
         · intro q hq _
           rw [hl] at hq; injection hq with hq; subst hq
           obtain ⟨sid, hsid⟩ := Option.isSome_iff_exists.mp hs
@@ -653,9 +785,8 @@ theorem sim_connect (gl : GlobalCfg) (groups : List Group) (st : St) (σ : Spec.
         simp only [hs, Bool.false_eq_true, if_false, Out.ok.injEq, Prod.mk.injEq] at h
         obtain ⟨rfl, rfl, rfl⟩ := h
         simp only [Bool.false_eq_true, if_false]
-        rcases sim_accept_known gl groups st σ a role k hc hi p hl had' hfree with ⟨σ', h1, h2⟩ | hk
-        · left; exact ⟨σ', h1, fun _ => h2⟩
-        · right; exact hk
+        obtain ⟨σ', h1, h2⟩ := sim_accept_known gl groups adm st σ a role k hc hi p hl had' hfree
+        exact ⟨σ', h1, fun _ => h2, fun h => absurd h (by simp)⟩
   | none =>
     simp only [hl, bind, Bind.bind] at h
     have hm := matching_eq st.groups a (by rw [hc.glob.2.2.2]; exact hwf) ha
@@ -666,10 +797,9 @@ theorem sim_connect (gl : GlobalCfg) (groups : List Group) (st : St) (σ : Spec.
     | [], h =>
       simp only [pure, Out.ok.injEq, Prod.mk.injEq] at h
       obtain ⟨rfl, rfl, rfl⟩ := h
-      left
-      refine ⟨σ, ?_, fun _ => hc⟩
+      refine ⟨σ, ?_, fun _ => hc, fun _ => rfl⟩
       simp only [Bool.false_eq_true, if_false]
-      apply sim_reject gl groups st σ a role k hc hi
+      apply sim_reject gl groups adm st σ a role k hc hi
       · intro q hq; rw [hl] at hq; cases hq
       · intro _; exact hcov
     | [g], h =>
@@ -683,23 +813,21 @@ theorem sim_connect (gl : GlobalCfg) (groups : List Group) (st : St) (σ : Spec.
         | some p =>
           simp only [h2, pure, Out.ok.injEq, Prod.mk.injEq] at h
           obtain ⟨rfl, rfl, rfl⟩ := h
-          left
           simp only [Bool.false_eq_true, if_false]
-          obtain ⟨σ', e1, e2⟩ := sim_accept_dynamic gl groups st st1 σ a role k hc hi hcid g p hl hcov h1 h2
-          exact ⟨σ', e1, fun _ => e2⟩
+          obtain ⟨σ', e1, e2⟩ := sim_accept_dynamic gl groups adm st st1 σ a role k hc hi hcid g p hl hcov h1 h2
+          exact ⟨σ', e1, fun _ => e2, fun h => absurd h (by simp)⟩
     | g1 :: g2 :: rest, h =>
       simp only [pure, Out.ok.injEq, Prod.mk.injEq] at h
       obtain ⟨rfl, rfl, rfl⟩ := h
-      left
-      refine ⟨σ, ?_, fun hh => by cases hh⟩
+      refine ⟨σ, ?_, fun hh => Bool.noConfusion hh, fun _ => rfl⟩
       simp only [if_true]
-      exact sim_amb gl groups st σ a role k hc hi hl g1 g2 rest hcov
+      exact sim_amb gl groups adm st σ a role k hc hi hl g1 g2 rest hcov
 
 
 /-! ### steps in which nothing new appears -/
 
-theorem coupled_shrink (gl : GlobalCfg) (groups : List Group) (st st' : St) (σ σ' : Spec.S)
-    (hc : Coupled gl groups st σ) (hk : (st.peers.map (·.1)).Nodup) (hk' : (st'.peers.map (·.1)).Nodup)
+theorem coupled_shrink (gl : GlobalCfg) (groups : List Group) (adm adm' : Bool) (st st' : St) (σ σ' : Spec.S)
+    (hc : Coupled gl groups adm st σ) (hk : (st.peers.map (·.1)).Nodup) (hk' : (st'.peers.map (·.1)).Nodup)
     (hglob : st'.asn = st.asn ∧ st'.rid = st.rid ∧ st'.confed = st.confed ∧ st'.groups = st.groups)
     (hrows : σ'.rows = snapshot st') (hnext : σ'.nextSid = σ.nextSid) (hn : st'.nextSid = st.nextSid)
     (hlive : σ'.live.map lcore = st'.live.map score)
@@ -708,14 +836,18 @@ theorem coupled_shrink (gl : GlobalCfg) (groups : List Group) (st st' : St) (σ 
     (hsub : ∀ s ∈ st'.live, ∃ s0 ∈ st.live, core s0 = core s)
     (hlv : ∀ y ∈ σ'.live, ∃ y0 ∈ σ.live, y0.sid = y.sid ∧ y0.addr = y.addr ∧ y0.role = y.role ∧
       (y.closing = false → y0.closing = false))
-    (hvan : ∀ y ∈ σ'.live, y.closing = false → (plookup y.addr st'.peers).isSome)
-    (hslot : ∀ y ∈ σ'.live, y.closing = false → ∀ q, plookup y.addr st.peers = some q →
-      (st.ctx q.ctx).get y.role = some y.sid → (st'.ctx q.ctx).get y.role = some y.sid) :
-    Coupled gl groups st' σ' := by
+    (hvan : ∀ y ∈ σ'.live, y.closing = false → y.addr ∉ σ'.poison → (plookup y.addr st'.peers).isSome)
+    (hslot : ∀ y ∈ σ'.live, y.closing = false → y.addr ∉ σ'.poison → ∀ q, plookup y.addr st.peers = some q →
+      (st.ctx q.ctx).get y.role = some y.sid → (st'.ctx q.ctx).get y.role = some y.sid)
+    (hpois : ∀ x ∈ σ.poison, x ∈ σ'.poison)
+    (hdoom : ∀ s ∈ st'.live, s.doom.isSome = true → ∀ x ∈ σ'.live, x.sid = s.sid → x.closing = true)
+    (hquiet : adm' = false → (∀ x ∈ σ'.live, x.closing = false) ∧ σ'.hit = none ∧ σ'.poison = [])
+    (hhit : ∀ k c, σ'.hit = some (k, c) → c ∈ hitClauses) :
+    Coupled gl groups adm' st' σ' := by
   have hrow' : ∀ a, (Spec.rowOf σ'.rows a).isSome = (plookup a st'.peers).isSome := by
     intro a; rw [hrows, rowOf_snapshot st' hk' a]; cases plookup a st'.peers <;> rfl
   refine ⟨⟨by rw [hglob.1]; exact hc.glob.1, by rw [hglob.2.1]; exact hc.glob.2.1, by rw [hglob.2.2.1]; exact hc.glob.2.2.1,
-    by rw [hglob.2.2.2]; exact hc.glob.2.2.2⟩, hrows, by rw [hnext, hn]; exact hc.next, hlive, ?_, ?_, ?_, ?_⟩
+    by rw [hglob.2.2.2]; exact hc.glob.2.2.2⟩, hrows, by rw [hnext, hn]; exact hc.next, hlive, ?_, ?_, ?_, ?_, hdoom, hquiet, hhit⟩
   · intro kn hkn
     rw [hknown, List.mem_filter] at hkn
     obtain ⟨e, he, hke⟩ := hc.knownCur kn hkn.1
@@ -737,19 +869,19 @@ theorem coupled_shrink (gl : GlobalCfg) (groups : List Group) (st st' : St) (σ 
     rw [hknown, List.mem_filter]
     refine ⟨hkn, ?_⟩
     rw [hrow', hka, k0, plookup_of_mem e.1 e.2 st'.peers hk' (by cases e; exact he)]; rfl
-  · intro y hy hyc
+  · intro y hy hyc hyp
     obtain ⟨y0, hy0, e1, e2, e3, e4⟩ := hlv y hy
-    obtain ⟨q, hq1, hq2⟩ := hc.healthy y0 hy0 (e4 hyc)
+    obtain ⟨q, hq1, hq2⟩ := hc.healthy y0 hy0 (e4 hyc) (fun h => hyp (by rw [← e2]; exact hpois _ h))
     rw [e2] at hq1; rw [e3, e1] at hq2
-    obtain ⟨p', hp'⟩ := Option.isSome_iff_exists.mp (hvan y hy hyc)
+    obtain ⟨p', hp'⟩ := Option.isSome_iff_exists.mp (hvan y hy hyc hyp)
     have hm' := plookup_mem _ _ _ hp'
     obtain ⟨e0, he0, k0, c0, _⟩ := hpeers _ hm'
     have : e0 = (y.addr, q) := eq_of_key hk he0 (plookup_mem _ _ _ hq1) k0
     refine ⟨p', hp', ?_⟩
     have hcq : p'.ctx = q.ctx := by rw [← c0, this]
     rw [hcq]
-    exact hslot y hy hyc q hq1 hq2
-  · intro s1 h1 s2 h2 hct hrl hne y hy hys
+    exact hslot y hy hyc hyp q hq1 hq2
+  · intro s1 h1 s2 h2 hct hrl hne hnp y hy hys
     obtain ⟨y0, hy0, e1, _, _, e4⟩ := hlv y hy
     cases hcl : y.closing with
     | true => rfl
@@ -758,14 +890,14 @@ theorem coupled_shrink (gl : GlobalCfg) (groups : List Group) (st st' : St) (σ 
       obtain ⟨t2, ht2, c2⟩ := hsub s2 h2
       simp only [core, Prod.mk.injEq] at c1 c2
       have := hc.uniq t1 ht1 t2 ht2 (by rw [c1.2.2.2, c2.2.2.2]; exact hct) (by rw [c1.2.2.1, c2.2.2.1]; exact hrl)
-        (by rw [c1.1, c2.1]; exact hne) y0 hy0 (by rw [e1, c1.1, c2.1]; exact hys)
+        (by rw [c1.1, c2.1]; exact hne) (fun h => hnp (by rw [← c1.2.1]; exact hpois _ h)) y0 hy0 (by rw [e1, c1.1, c2.1]; exact hys)
       rw [e4 hcl] at this; cases this
 
 
 /-! ### disconnect -/
 
-theorem disconnect_res (st : St) (sid : Nat) (s : Sess) (h : st.live.find? (fun x => x.sid = sid) = some s) :
-    (disconnect st sid).2 = firstSeen s st.rid := by
+theorem disconnect_res (st : St) (sid : Nat) (reply : Option Nat) (s : Sess) (h : st.live.find? (fun x => x.sid = sid) = some s) :
+    (disconnect st sid reply).2 = firstSeen s st.rid reply := by
   unfold disconnect
   simp only [h, St.setCtx]
   cases hl : plookup s.addr st.peers with
@@ -778,15 +910,17 @@ theorem disconnect_res (st : St) (sid : Nat) (s : Sess) (h : st.live.find? (fun 
       · simp only [a, b, if_true, Bool.false_eq_true, if_false]
     · simp only [a, Bool.false_eq_true, if_false]
 
-theorem disconnect_spec (st : St) (sid : Nat) (s : Sess) (h : st.live.find? (fun x => x.sid = sid) = some s)
+theorem disconnect_spec (st : St) (sid : Nat) (reply : Option Nat) (s : Sess) (h : st.live.find? (fun x => x.sid = sid) = some s)
     (hi : Inv st) :
-    (∀ e ∈ (disconnect st sid).1.peers, e ∈ st.peers) ∧
-    (disconnect st sid).1.live = st.live.filter (fun x => x.sid != s.sid) ∧
-    ((disconnect st sid).1.asn = st.asn ∧ (disconnect st sid).1.rid = st.rid ∧
-      (disconnect st sid).1.confed = st.confed ∧ (disconnect st sid).1.groups = st.groups) ∧
-    (disconnect st sid).1.nextSid = st.nextSid ∧
+    (∀ e ∈ (disconnect st sid reply).1.peers, e ∈ st.peers) ∧
+    (∀ e ∈ st.peers, e ∈ (disconnect st sid reply).1.peers ∨
+      (e.1 = s.addr ∧ ((st.ctx s.ctx).set s.role none).slotA = none ∧ ((st.ctx s.ctx).set s.role none).slotP = none)) ∧
+    (disconnect st sid reply).1.live = st.live.filter (fun x => x.sid != s.sid) ∧
+    ((disconnect st sid reply).1.asn = st.asn ∧ (disconnect st sid reply).1.rid = st.rid ∧
+      (disconnect st sid reply).1.confed = st.confed ∧ (disconnect st sid reply).1.groups = st.groups) ∧
+    (disconnect st sid reply).1.nextSid = st.nextSid ∧
     (∀ j r v, (st.ctx j).get r = some v → ¬ (j = s.ctx ∧ r = s.role) →
-      ((disconnect st sid).1.ctx j).get r = some v ∨
+      ((disconnect st sid reply).1.ctx j).get r = some v ∨
       (∃ p, plookup s.addr st.peers = some p ∧ p.cfg.dyn = false ∧ j = p.ctx ∧
         ((st.ctx s.ctx).set s.role none).slotA = none ∧ ((st.ctx s.ctx).set s.role none).slotP = none)) := by
   have hs := (find_sid h).1
@@ -803,10 +937,10 @@ theorem disconnect_spec (st : St) (sid : Nat) (s : Sess) (h : st.live.find? (fun
       have hr : r ≠ s.role := fun e => hne ⟨hj, e⟩
       simp only [hr, if_false]; rw [← hj]; exact hv
     · simp only [hj, if_false]; exact hv
-  rw [disconnect_eq st sid s h]
+  rw [disconnect_eq st sid reply s h]
   simp only
   cases hl : plookup s.addr (afterApply st s).peers with
-  | none => exact ⟨fun e he => he, rfl, (by first | exact ⟨rfl, rfl, rfl, rfl⟩ | simp [afterApply, St.setCtx]), rfl, fun j r v hv hne => Or.inl (keepA j r v hv hne)⟩
+  | none => exact ⟨fun e he => he, fun e he => Or.inl he, rfl, (by first | exact ⟨rfl, rfl, rfl, rfl⟩ | simp [afterApply, St.setCtx]), rfl, fun j r v hv hne => Or.inl (keepA j r v hv hne)⟩
   | some p =>
     simp only
     have hl' : plookup s.addr st.peers = some p := hl
@@ -814,13 +948,19 @@ theorem disconnect_spec (st : St) (sid : Nat) (s : Sess) (h : st.live.find? (fun
     · simp only [hno, if_true]
       by_cases hd : p.cfg.dyn = true
       · simp only [hd, if_true]
-        exact ⟨fun e he => ((mem_perase _ _ _).mp he).1, rfl, (by first | exact ⟨rfl, rfl, rfl, rfl⟩ | simp [afterApply, St.setCtx]), rfl,
+        refine ⟨fun e he => ((mem_perase _ _ _).mp he).1, ?_, rfl, (by first | exact ⟨rfl, rfl, rfl, rfl⟩ | simp [afterApply, St.setCtx]), rfl,
           fun j r v hv hne => Or.inl (keepA j r v hv hne)⟩
+        intro e he
+        by_cases hea : e.1 = s.addr
+        · right
+          simp only [Bool.and_eq_true, Option.isNone_iff_eq_none] at hno
+          exact ⟨hea, hno.1, hno.2⟩
+        · left; exact (mem_perase _ _ _).mpr ⟨he, hea⟩
       · simp only [hd, Bool.false_eq_true, if_false]
         have hpl : p.ctx < (afterApply st s).ctxs.length := by
           have := hi.core.ctxLt (s.addr, p) (plookup_mem _ _ _ hl')
           simpa [afterApply, St.setCtx] using this
-        refine ⟨fun e he => he, rfl, (by first | exact ⟨rfl, rfl, rfl, rfl⟩ | simp [afterApply, St.setCtx]), rfl, ?_⟩
+        refine ⟨fun e he => he, fun e he => Or.inl he, rfl, (by first | exact ⟨rfl, rfl, rfl, rfl⟩ | simp [afterApply, St.setCtx]), rfl, ?_⟩
         intro j r v hv hne
         by_cases hj : j = p.ctx
         · right
@@ -831,7 +971,7 @@ theorem disconnect_spec (st : St) (sid : Nat) (s : Sess) (h : st.live.find? (fun
           simp only [hj, if_false]
           exact keepA j r v hv hne
     · simp only [hno, Bool.false_eq_true, if_false]
-      exact ⟨fun e he => he, rfl, (by first | exact ⟨rfl, rfl, rfl, rfl⟩ | simp [afterApply, St.setCtx]), rfl, fun j r v hv hne => Or.inl (keepA j r v hv hne)⟩
+      exact ⟨fun e he => he, fun e he => Or.inl he, rfl, (by first | exact ⟨rfl, rfl, rfl, rfl⟩ | simp [afterApply, St.setCtx]), rfl, fun j r v hv hne => Or.inl (keepA j r v hv hne)⟩
 
 
 theorem mem_closeVanished (rows : List SnapRow) (l : List Spec.LiveS) (y : Spec.LiveS) (hy : y ∈ Spec.closeVanished rows l) :
@@ -846,43 +986,96 @@ theorem mem_closeVanished (rows : List SnapRow) (l : List Spec.LiveS) (y : Spec.
     refine ⟨rfl, rfl, rfl, rfl, fun h => ⟨h, ?_⟩⟩
     cases hh : Spec.rowOf rows y0.addr <;> simp_all
 
-theorem sim_disc (gl : GlobalCfg) (groups : List Group) (st : St) (σ : Spec.S) (sid k : Nat)
-    (hc : Coupled gl groups st σ) (hi : Inv st) :
-    ∃ σ', Spec.checkDisc k σ sid { res := (disconnect st sid).2, snap := snapshot (disconnect st sid).1 } = (.ok, σ') ∧
-      Coupled gl groups (disconnect st sid).1 σ' := by
+theorem mem_vanished (rows : List SnapRow) (poison : List Ip) (l : List Spec.LiveS) (a : Ip) :
+    a ∈ Spec.vanished rows poison l ↔
+      ∃ y ∈ l, y.addr = a ∧ y.closing = false ∧ y.addr ∉ poison ∧ (Spec.rowOf rows y.addr).isNone = true := by
+  simp only [Spec.vanished, List.mem_map, List.mem_filter, Bool.and_eq_true, Bool.not_eq_true']
+  constructor
+  · rintro ⟨y, ⟨hy, ⟨h1, h2⟩, h3⟩, rfl⟩
+    refine ⟨y, hy, rfl, h1, ?_, h3⟩
+    intro hm; rw [contains_true hm] at h2; cases h2
+  · rintro ⟨y, hy, rfl, h1, h2, h3⟩
+    exact ⟨y, ⟨hy, ⟨h1, contains_false h2⟩, h3⟩, rfl⟩
+
+/-- before the first tear-down, ending a session never takes the neighbour state away from
+    another connection -/
+theorem quiet_rows (gl : GlobalCfg) (groups : List Group) (st : St) (σ : Spec.S) (sid : Nat) (reply : Option Nat) (s : Sess)
+    (hc : Coupled gl groups false st σ) (hi : Inv st) (h2 : st.live.find? (fun x => x.sid = sid) = some s)
+    (y : Spec.LiveS) (hy : y ∈ σ.live) (hne : y.sid ≠ s.sid) :
+    (plookup y.addr (disconnect st sid reply).1.peers).isSome = true := by
+  obtain ⟨hs, hsid⟩ := find_sid h2
+  obtain ⟨q1, _, q3⟩ := hc.quiet rfl
+  obtain ⟨_, dP2, _, _, _, _⟩ := disconnect_spec st sid reply s h2 hi
+  have hk' := (inv_disconnect st sid reply hi).core.keys
+  obtain ⟨q, hq1, hq2⟩ := hc.healthy y hy (q1 y hy) (by rw [q3]; simp)
+  have hqm := plookup_mem _ _ _ hq1
+  rcases dP2 _ hqm with hin | ⟨hea, hA, hP⟩
+  · rw [plookup_of_mem _ _ _ hk' hin]; rfl
+  · exfalso
+    -- the session that ends is itself healthy, so it is the holder of its slot
+    obtain ⟨x, hx, hxs⟩ := live_mem_of_model hc.live s hs
+    simp only [lcore, score, Prod.mk.injEq] at hxs
+    obtain ⟨q', hq1', hq2'⟩ := hc.healthy x hx (q1 x hx) (by rw [q3]; simp)
+    have hqq : q' = q := by
+      rw [hxs.2.1, ← hea] at hq1'
+      simp only at hq1'
+      rw [hq1] at hq1'; injection hq1' with e; exact e.symm
+    rw [hqq, hxs.2.2.1, hxs.1] at hq2'
+    obtain ⟨t, ht, ht1, ht2, _⟩ := hi.core.slotLive q.ctx s.role s.sid hq2'
+    have hts : t = s := eq_of_sid hi.core.sids ht hs ht1
+    have hsc : s.ctx = q.ctx := by rw [← hts]; exact ht2
+    have hrl : y.role ≠ s.role := by
+      intro e; rw [e, hq2'] at hq2; injection hq2 with e'; exact hne e'.symm
+    have hg : ((st.ctx s.ctx).set s.role none).get y.role = some y.sid := by
+      rw [get_set]; simp only [hrl, if_false]; rw [hsc]; exact hq2
+    cases hr : y.role with
+    | active => rw [hr] at hg; simp only [Ctx.get] at hg; rw [hA] at hg; cases hg
+    | passive => rw [hr] at hg; simp only [Ctx.get] at hg; rw [hP] at hg; cases hg
+
+theorem sim_disc (gl : GlobalCfg) (groups : List Group) (adm : Bool) (st : St) (σ : Spec.S) (sid k : Nat) (reply : Option Nat)
+    (hc : Coupled gl groups adm st σ) (hi : Inv st) :
+    ∃ σ', Spec.checkDisc k σ sid reply { res := (disconnect st sid reply).2, snap := snapshot (disconnect st sid reply).1 } = (.ok, σ') ∧
+      Coupled gl groups adm (disconnect st sid reply).1 σ' := by
   rcases find_sid_coupled σ.live st.live hc.live sid with ⟨h1, h2⟩ | ⟨x, s, h1, h2, hxs⟩
-  · rw [disconnect_none st sid h2]
+  · rw [disconnect_none st sid reply h2]
     refine ⟨σ, ?_, hc⟩
     unfold Spec.checkDisc
     simp only [h1]
     have : (snapshot st == σ.rows) = true := by rw [hc.rows]; simp
     simp [Spec.firstFail, this]
-  · have hinv' := inv_disconnect st sid hi
+  · have hinv' := inv_disconnect st sid reply hi
     obtain ⟨hs, hsid⟩ := find_sid h2
-    obtain ⟨dP, dL, dG, dN, dS⟩ := disconnect_spec st sid s h2 hi
+    obtain ⟨dP, _, dL, dG, dN, dS⟩ := disconnect_spec st sid reply s h2 hi
     have hxsid : x.sid = sid := (by simpa using List.find?_some h1)
     have hxm := List.mem_of_find?_eq_some h1
     simp only [lcore, score, Prod.mk.injEq] at hxs
-    have hlive' : (σ.live.filter fun y => y.sid != sid).map lcore = (disconnect st sid).1.live.map score := by
+    have hlive' : (σ.live.filter fun y => y.sid != sid).map lcore = (disconnect st sid reply).1.live.map score := by
       rw [dL, hsid]; exact filter_sid_coupled σ.live st.live hc.live sid
     have hk' := hinv'.core.keys
-    -- the three requirements of the checker
-    have c1 : Spec.openOk x.cfg (disconnect st sid).2 = true := by
-      rw [disconnect_res st sid s h2]
+    have c1 : Spec.openOk x (disconnect st sid reply).2 = true := by
+      rw [disconnect_res st sid reply s h2]
       unfold firstSeen
-      cases s.doom with
-      | none => simp [Spec.openOk, hxs.2.2.2.1, hxs.2.2.2.2.1, hxs.2.2.2.2.2]
+      cases hd : s.doom with
+      | none => simp [Spec.openOk, hxs.2.2.2.1, hxs.2.2.2.2.1, hxs.2.2.2.2.2.1]
+      | some d =>
+        have := hc.doomed s hs (by rw [hd]; rfl) x hxm hxs.1
+        cases d <;> simp [Spec.openOk, this]
+    have c1b : Spec.replyOk x reply (disconnect st sid reply).2 = true := by
+      rw [disconnect_res st sid reply s h2]
+      unfold firstSeen
+      cases hd : s.doom with
+      | none =>
+        simp only [Spec.replyOk, decide_eq_true_eq, hxs.2.2.2.2.2.2]
       | some d => cases d <;> rfl
     have c3 := dynRows_ok _ _ hinv' hlive'
     have c2 : Spec.imp (decide ((Spec.rowOf σ.rows x.addr).map (·.dyn) = some true) &&
         (Spec.liveFor (σ.live.filter fun y => y.sid != sid) x.addr).isEmpty)
-        (Spec.rowOf (snapshot (disconnect st sid).1) x.addr).isNone = true := by
+        (Spec.rowOf (snapshot (disconnect st sid reply).1) x.addr).isNone = true := by
       unfold Spec.imp
       rw [rowOf_snapshot _ hk']
-      cases hl' : plookup x.addr (disconnect st sid).1.peers with
+      cases hl' : plookup x.addr (disconnect st sid reply).1.peers with
       | none => simp
       | some p' =>
-        -- the neighbour is still there: it is the same one, and if dynamic it still has a connection
         have hm' := plookup_mem _ _ _ hl'
         have hm := dP _ hm'
         have hold : Spec.rowOf σ.rows x.addr = some (snapRow st (x.addr, p')) := by
@@ -900,15 +1093,35 @@ theorem sim_disc (gl : GlobalCfg) (groups : List Group) (st : St) (σ : Spec.S) 
         cases hh : Spec.liveFor (σ.live.filter fun y => y.sid != sid) x.addr with
         | nil => rw [hh] at this; simp at this
         | cons _ _ => rfl
-    refine ⟨{ σ with rows := snapshot (disconnect st sid).1
-                     live := Spec.closeVanished (snapshot (disconnect st sid).1) (σ.live.filter fun y => y.sid != sid)
-                     known := σ.known.filter fun kn => (Spec.rowOf (snapshot (disconnect st sid).1) kn.addr).isSome }, ?_, ?_⟩
+    -- what has been noted about connections that lost their neighbour state
+    let gone := Spec.vanished (snapshot (disconnect st sid reply).1) σ.poison (σ.live.filter fun y => y.sid != sid)
+    let σ1 : Spec.S := if gone.isEmpty then σ else σ.recordHit k Spec.hitVanished gone
+    have hσ1p : ∀ a, a ∈ σ1.poison ↔ (a ∈ gone ∨ a ∈ σ.poison) := by
+      intro a
+      show a ∈ (if gone.isEmpty then σ else σ.recordHit k Spec.hitVanished gone).poison ↔ _
+      by_cases hg : gone.isEmpty = true
+      · rw [if_pos hg]; rw [List.isEmpty_iff.mp hg]; simp
+      · rw [if_neg hg]; simp [Spec.S.recordHit]
+    have hσ1known : σ1.known = σ.known := by
+      show (if gone.isEmpty then σ else σ.recordHit k Spec.hitVanished gone).known = _
+      split <;> rfl
+    have hσ1next : σ1.nextSid = σ.nextSid := by
+      show (if gone.isEmpty then σ else σ.recordHit k Spec.hitVanished gone).nextSid = _
+      split <;> rfl
+    have hσ1hit : ∀ k' c', σ1.hit = some (k', c') → c' ∈ hitClauses := by
+      show ∀ k' c', (if gone.isEmpty then σ else σ.recordHit k Spec.hitVanished gone).hit = some (k', c') → _
+      split
+      · exact hc.hitOk
+      · exact recordHit_ok σ k _ gone (by simp [hitClauses]) hc.hitOk
+    refine ⟨{ σ1 with rows := snapshot (disconnect st sid reply).1
+                      live := Spec.closeVanished (snapshot (disconnect st sid reply).1) (σ.live.filter fun y => y.sid != sid)
+                      known := σ.known.filter fun kn => (Spec.rowOf (snapshot (disconnect st sid reply).1) kn.addr).isSome }, ?_, ?_⟩
     · unfold Spec.checkDisc
-      simp only [h1, hxsid, c1, c2, c3, Spec.firstFail]
-    · -- the coupling after the step
-      refine coupled_shrink gl groups st _ σ _ hc hi.core.keys hk' dG ?_ ?_ dN ?_ ?_ ?_ ?_ ?_ ?_ ?_
+      simp only [h1, hxsid, c1, c1b, c2, c3, Spec.firstFail]
+      rfl
+    · refine coupled_shrink gl groups adm adm st _ σ _ hc hi.core.keys hk' dG ?_ ?_ dN ?_ ?_ ?_ ?_ ?_ ?_ ?_ ?_ ?_ ?_ ?_
       · rfl
-      · rfl
+      · exact hσ1next
       · rw [closeVanished_lcore]; exact hlive'
       · intro e he; exact ⟨e, dP e he, rfl, rfl, rfl⟩
       · rfl
@@ -916,31 +1129,30 @@ theorem sim_disc (gl : GlobalCfg) (groups : List Group) (st : St) (σ : Spec.S) 
       · intro y hy
         obtain ⟨y0, h0, e1, e2, e3, _, e5⟩ := mem_closeVanished _ _ y hy
         exact ⟨y0, (List.mem_filter.mp h0).1, e1, e2, e3, fun h => (e5 h).1⟩
-      · intro y hy hyc
+      · intro y hy hyc _
         obtain ⟨y0, h0, e1, e2, e3, _, e5⟩ := mem_closeVanished _ _ y hy
         have := (e5 hyc).2
         rw [rowOf_snapshot _ hk'] at this
-        cases hh : plookup y.addr (disconnect st sid).1.peers <;> simp_all
-      · intro y hy hyc q hq1 hq2
+        cases hh : plookup y.addr (disconnect st sid reply).1.peers <;> simp_all
+      · intro y hy hyc hyp q hq1 hq2
         obtain ⟨y0, h0, e1, e2, e3, _, e5⟩ := mem_closeVanished _ _ y hy
         have h0' := List.mem_filter.mp h0
         have hne : y.sid ≠ s.sid := by
           rw [← e1, hsid]; simpa using h0'.2
-        -- the session holding that slot
+        have hyp0 : y.addr ∉ σ.poison := fun h => hyp ((hσ1p _).mpr (Or.inr h))
         obtain ⟨t, ht, ht1, ht2, ht3⟩ := hi.core.slotLive q.ctx y.role y.sid hq2
+        have htaddr : t.addr = y.addr := hi.core.owner t ht _ (plookup_mem _ _ _ hq1) ht2
         have hnot : ¬ (q.ctx = s.ctx ∧ y.role = s.role) := by
           rintro ⟨hcx, hrl⟩
-          have := hc.uniq t ht s hs (by rw [ht2, hcx]) (by rw [ht3, hrl]) (by rw [ht1]; exact hne) y0 h0'.1
-            (Or.inl (by rw [e1, ht1]))
+          have := hc.uniq t ht s hs (by rw [ht2, hcx]) (by rw [ht3, hrl]) (by rw [ht1]; exact hne)
+            (by rw [htaddr]; exact hyp0) y0 h0'.1 (Or.inl (by rw [e1, ht1]))
           rw [(e5 hyc).1] at this; cases this
         rcases dS q.ctx y.role y.sid hq2 hnot with hkeep | ⟨p, hp1, hp2, hp3, hp4, hp5⟩
         · exact hkeep
         · exfalso
-          -- a static neighbour whose slots are all free: then `y` cannot hold one
           have hqm := plookup_mem _ _ _ hq1
           have hpm := plookup_mem _ _ _ hp1
           have heq := hi.core.ctxInj _ hqm _ hpm hp3
-          have hya : y.addr = s.addr := by injection heq
           have hsctx : s.ctx = p.ctx := hi.core.staticCtx s hs _ hpm rfl hp2
           have hrl : y.role ≠ s.role := fun e => hnot ⟨by rw [hp3, hsctx], e⟩
           have hg : ((st.ctx s.ctx).set s.role none).get y.role = some y.sid := by
@@ -948,7 +1160,47 @@ theorem sim_disc (gl : GlobalCfg) (groups : List Group) (st : St) (σ : Spec.S) 
           cases hr : y.role with
           | active => rw [hr] at hg; simp only [Ctx.get] at hg; rw [hp4] at hg; cases hg
           | passive => rw [hr] at hg; simp only [Ctx.get] at hg; rw [hp5] at hg; cases hg
-
+      · intro a ha; exact (hσ1p a).mpr (Or.inr ha)
+      · -- a close reason waiting: the checker knows the connection as closing
+        intro t ht hd y hy hys
+        rw [dL] at ht
+        have ht' := (List.mem_filter.mp ht).1
+        obtain ⟨y0, h0, e1, _, _, _, e5⟩ := mem_closeVanished _ _ y hy
+        cases hcl : y.closing with
+        | true => rfl
+        | false =>
+          have := hc.doomed t ht' hd y0 (List.mem_filter.mp h0).1 (by rw [e1]; exact hys)
+          rw [(e5 hcl).1] at this; cases this
+      · -- before the first tear-down nothing vanishes under a live connection
+        intro hadm
+        subst hadm
+        obtain ⟨q1, q2, q3⟩ := hc.quiet rfl
+        have hrows : ∀ y ∈ σ.live.filter (fun y => y.sid != sid), (Spec.rowOf (snapshot (disconnect st sid reply).1) y.addr).isSome = true := by
+          intro y hy
+          have hy' := List.mem_filter.mp hy
+          have := quiet_rows gl groups st σ sid reply s hc hi h2 y hy'.1 (by rw [hsid]; simpa using hy'.2)
+          rw [rowOf_snapshot _ hk']
+          cases hh : plookup y.addr (disconnect st sid reply).1.peers <;> simp_all
+        have hgone : gone = [] := by
+          apply List.eq_nil_iff_forall_not_mem.mpr
+          intro a ha
+          obtain ⟨y, hy, _, _, _, h4⟩ := (mem_vanished _ _ _ a).mp ha
+          have := hrows y hy
+          cases hh : Spec.rowOf (snapshot (disconnect st sid reply).1) y.addr <;> simp_all
+        have hσ1 : σ1 = σ := by
+          show (if gone.isEmpty then σ else σ.recordHit k Spec.hitVanished gone) = σ
+          rw [hgone]; rfl
+        refine ⟨?_, by show σ1.hit = none; rw [hσ1]; exact q2, by show σ1.poison = []; rw [hσ1]; exact q3⟩
+        intro y hy
+        obtain ⟨y0, h0, _, _, _, _, _⟩ := mem_closeVanished _ _ y hy
+        simp only [Spec.closeVanished, List.mem_map] at hy
+        obtain ⟨z, hz, rfl⟩ := hy
+        have hr := hrows z hz
+        have : (Spec.rowOf (snapshot (disconnect st sid reply).1) z.addr).isNone = false := by
+          cases hh : Spec.rowOf (snapshot (disconnect st sid reply).1) z.addr <;> simp_all
+        simp only [this, Bool.false_eq_true, if_false]
+        exact q1 z (List.mem_filter.mp hz).1
+      · exact hσ1hit
 
 /-! ### administrative operations -/
 
@@ -981,19 +1233,21 @@ theorem mem_closeAll (l : List Spec.LiveS) (a : Ip) (y : Spec.LiveS) (hy : y ∈
   · rw [if_neg ha]; exact ⟨rfl, rfl, rfl, fun h => ⟨h, ha⟩⟩
 
 /-- generic coupling after an administrative operation -/
-theorem coupled_api (gl : GlobalCfg) (groups : List Group) (st st' : St) (σ : Spec.S) (L : List Spec.LiveS)
-    (hc : Coupled gl groups st σ) (hk : (st.peers.map (·.1)).Nodup) (hk' : (st'.peers.map (·.1)).Nodup)
+theorem coupled_api (gl : GlobalCfg) (groups : List Group) (adm adm' : Bool) (st st' : St) (σ : Spec.S) (L : List Spec.LiveS)
+    (hc : Coupled gl groups adm st σ) (hk : (st.peers.map (·.1)).Nodup) (hk' : (st'.peers.map (·.1)).Nodup)
     (hglob : st'.asn = st.asn ∧ st'.rid = st.rid ∧ st'.confed = st.confed ∧ st'.groups = st.groups)
     (hn : st'.nextSid = st.nextSid)
     (hscore : st'.live.map score = st.live.map score) (hcore : st'.live.map core = st.live.map core)
     (hpeers : ∀ e ∈ st'.peers, ∃ e0 ∈ st.peers, e0.1 = e.1 ∧ e0.2.ctx = e.2.ctx ∧ e0.2.cfg = e.2.cfg)
     (hL1 : L.map lcore = σ.live.map lcore)
     (hL2 : ∀ y ∈ L, ∃ y0 ∈ σ.live, y0.sid = y.sid ∧ y0.addr = y.addr ∧ y0.role = y.role ∧ (y.closing = false → y0.closing = false))
-    (hctx : ∀ y ∈ L, y.closing = false → ∀ q, plookup y.addr st.peers = some q → st'.ctx q.ctx = st.ctx q.ctx) :
-    Coupled gl groups st'
+    (hctx : ∀ y ∈ L, y.closing = false → ∀ q, plookup y.addr st.peers = some q → st'.ctx q.ctx = st.ctx q.ctx)
+    (hdoom : ∀ s ∈ st'.live, s.doom.isSome = true → ∀ y ∈ L, y.sid = s.sid → y.closing = true)
+    (hquiet : adm' = false → (∀ y ∈ L, y.closing = false ∧ (plookup y.addr st'.peers).isSome = true) ∧ σ.hit = none ∧ σ.poison = []) :
+    Coupled gl groups adm' st'
       { σ with rows := snapshot st', live := Spec.closeVanished (snapshot st') L
                known := σ.known.filter fun kn => (Spec.rowOf (snapshot st') kn.addr).isSome } := by
-  refine coupled_shrink gl groups st st' σ _ hc hk hk' hglob ?_ ?_ hn ?_ hpeers ?_ ?_ ?_ ?_ ?_
+  refine coupled_shrink gl groups adm adm' st st' σ _ hc hk hk' hglob ?_ ?_ hn ?_ hpeers ?_ ?_ ?_ ?_ ?_ ?_ ?_ ?_ hc.hitOk
   · rfl
   · rfl
   · rw [closeVanished_lcore, hL1, hc.live, hscore]
@@ -1003,20 +1257,64 @@ theorem coupled_api (gl : GlobalCfg) (groups : List Group) (st st' : St) (σ : S
     obtain ⟨y1, h1, e1, e2, e3, _, e5⟩ := mem_closeVanished _ _ y hy
     obtain ⟨y0, h0, f1, f2, f3, f4⟩ := hL2 y1 h1
     exact ⟨y0, h0, by rw [f1, e1], by rw [f2, e2], by rw [f3, e3], fun h => f4 (e5 h).1⟩
-  · intro y hy hyc
+  · intro y hy hyc _
     obtain ⟨y1, h1, e1, e2, e3, _, e5⟩ := mem_closeVanished _ _ y hy
     have := (e5 hyc).2
     rw [rowOf_snapshot _ hk'] at this
     cases hh : plookup y.addr st'.peers <;> simp_all
-  · intro y hy hyc q hq1 hq2
+  · intro y hy hyc _ q hq1 hq2
     obtain ⟨y1, h1, e1, e2, e3, _, e5⟩ := mem_closeVanished _ _ y hy
     have := hctx y1 h1 (e5 hyc).1 q (by rw [e2]; exact hq1)
     rw [this]; exact hq2
-
+  · intro x hx; exact hx
+  · intro t ht hd y hy hys
+    obtain ⟨y1, h1, e1, _, _, _, e5⟩ := mem_closeVanished _ _ y hy
+    cases hcl : y.closing with
+    | true => rfl
+    | false =>
+      have := hdoom t ht hd y1 h1 (by rw [e1]; exact hys)
+      rw [(e5 hcl).1] at this; cases this
+  · intro ha
+    obtain ⟨q1, q2, q3⟩ := hquiet ha
+    refine ⟨?_, q2, q3⟩
+    intro y hy
+    simp only [Spec.closeVanished, List.mem_map] at hy
+    obtain ⟨z, hz, rfl⟩ := hy
+    have hr : (Spec.rowOf (snapshot st') z.addr).isNone = false := by
+      rw [rowOf_snapshot _ hk']
+      have := (q1 z hz).2
+      cases hh : plookup z.addr st'.peers <;> simp_all
+    simp only [hr, Bool.false_eq_true, if_false]
+    exact (q1 z hz).1
 
 theorem forceDown_score (st : St) (c : Nat) (d : Doom) : (forceDown st c d).live.map score = st.live.map score := by
   simp only [forceDown]
   rw [doomSess_map score (fun _ _ => rfl), doomSess_map score (fun _ _ => rfl)]
+
+/-- who gets a close reason from `doomSess` -/
+theorem mem_doomSess (l : List Sess) (i : Option Nat) (d : Doom) (s' : Sess) (hs : s' ∈ doomSess l i d) :
+    ∃ s0 ∈ l, s0.sid = s'.sid ∧ (s'.doom.isSome = true → (s0.doom.isSome = true ∨ i = some s0.sid)) := by
+  cases i with
+  | none => exact ⟨s', hs, rfl, fun h => Or.inl h⟩
+  | some j =>
+    simp only [doomSess, List.mem_map] at hs
+    obtain ⟨s0, h0, rfl⟩ := hs
+    by_cases hj : s0.sid = j
+    · rw [if_pos hj]; exact ⟨s0, h0, rfl, fun _ => Or.inr (by rw [hj])⟩
+    · rw [if_neg hj]; exact ⟨s0, h0, rfl, fun h => Or.inl h⟩
+
+theorem forceDown_doom (st : St) (c : Nat) (d : Doom) (s' : Sess) (hs : s' ∈ (forceDown st c d).live)
+    (hd : s'.doom.isSome = true) :
+    ∃ s0 ∈ st.live, s0.sid = s'.sid ∧ (s0.doom.isSome = true ∨ (st.ctx c).slotA = some s0.sid ∨ (st.ctx c).slotP = some s0.sid) := by
+  simp only [forceDown] at hs
+  obtain ⟨s1, h1, e1, f1⟩ := mem_doomSess _ _ _ s' hs
+  obtain ⟨s0, h0, e0, f0⟩ := mem_doomSess _ _ _ s1 h1
+  refine ⟨s0, h0, by rw [e0, e1], ?_⟩
+  rcases f1 hd with h | h
+  · rcases f0 h with h' | h'
+    · exact Or.inl h'
+    · exact Or.inr (Or.inl h')
+  · right; right; rw [h, e0]
 
 /-- the model's administrative step -/
 def apiF (kind : Spec.Api) (a : Ip) (st : St) (p : Peer) : St :=
@@ -1039,6 +1337,8 @@ theorem step_api (st : St) (kind : Spec.Api) (a : Ip) :
     step st (apiOpOf kind a) = .ok ((apiOp st a (apiF kind a)).1, (apiOp st a (apiF kind a)).2, false) := by
   cases kind <;> rfl
 
+def admKind (kind : Spec.Api) : Bool := decide (kind ≠ .enable)
+
 /-- facts about the state after an administrative operation on an existing neighbour -/
 structure ApiFacts (st st' : St) (a : Ip) (p : Peer) (forced : Bool) : Prop where
   glob : st'.asn = st.asn ∧ st'.rid = st.rid ∧ st'.confed = st.confed ∧ st'.groups = st.groups
@@ -1047,19 +1347,41 @@ structure ApiFacts (st st' : St) (a : Ip) (p : Peer) (forced : Bool) : Prop wher
   core : st'.live.map core = st.live.map core
   peers : ∀ e ∈ st'.peers, ∃ e0 ∈ st.peers, e0.1 = e.1 ∧ e0.2.ctx = e.2.ctx ∧ e0.2.cfg = e.2.cfg
   ctx : ∀ j, (forced = false ∨ j ≠ p.ctx) → st'.ctx j = st.ctx j
+  doom : ∀ s' ∈ st'.live, s'.doom.isSome = true →
+    ∃ s0 ∈ st.live, s0.sid = s'.sid ∧ (s0.doom.isSome = true ∨ (forced = true ∧ s0.addr = a))
+  keep : forced = false → ∀ e ∈ st.peers, ∃ e' ∈ st'.peers, e'.1 = e.1
 
-theorem facts_forceDown (st st0 : St) (a : Ip) (p : Peer) (d : Doom)
+theorem facts_forceDown (st st0 : St) (a : Ip) (p : Peer) (d : Doom) (hi : InvCore st) (hm : (a, p) ∈ st.peers)
     (h1 : st0.asn = st.asn ∧ st0.rid = st.rid ∧ st0.confed = st.confed ∧ st0.groups = st.groups)
     (h2 : st0.nextSid = st.nextSid) (h3 : st0.live = st.live) (h4 : st0.ctxs = st.ctxs)
     (h5 : ∀ e ∈ st0.peers, ∃ e0 ∈ st.peers, e0.1 = e.1 ∧ e0.2.ctx = e.2.ctx ∧ e0.2.cfg = e.2.cfg) :
     ApiFacts st (forceDown st0 p.ctx d) a p true := by
   obtain ⟨f1, _, f3, f4, f5, f6, f7, f8, _⟩ := forceDown_fields st0 p.ctx d
+  have hctx0 : ∀ j, st0.ctx j = st.ctx j := fun j => by simp only [St.ctx, h4]
   refine ⟨⟨by rw [f5]; exact h1.1, by rw [f6]; exact h1.2.1, by rw [f7]; exact h1.2.2.1, by rw [f4]; exact h1.2.2.2⟩,
-    by rw [f3]; exact h2, by rw [forceDown_score, h3], by rw [f8, h3], by rw [f1]; exact h5, ?_⟩
-  intro j hj
-  rcases hj with hj | hj
-  · cases hj
-  · rw [ctx_forceDown]; simp only [hj, if_false]; simp only [St.ctx, h4]
+    by rw [f3]; exact h2, by rw [forceDown_score, h3], by rw [f8, h3], by rw [f1]; exact h5, ?_, ?_, fun h => by cases h⟩
+  · intro j hj
+    rcases hj with hj | hj
+    · cases hj
+    · rw [ctx_forceDown]; simp only [hj, if_false]; exact hctx0 j
+  · intro s' hs' hd
+    obtain ⟨s0, h0, e0, hor⟩ := forceDown_doom st0 p.ctx d s' hs' hd
+    rw [h3] at h0
+    refine ⟨s0, h0, e0, ?_⟩
+    rcases hor with h | h | h
+    · exact Or.inl h
+    · right
+      rw [hctx0] at h
+      obtain ⟨t, ht, ht1, ht2, _⟩ := hi.slotLive p.ctx .active s0.sid h
+      have : t = s0 := eq_of_sid hi.sids ht h0 ht1
+      rw [this] at ht2
+      exact ⟨rfl, hi.owner s0 h0 (a, p) hm ht2⟩
+    · right
+      rw [hctx0] at h
+      obtain ⟨t, ht, ht1, ht2, _⟩ := hi.slotLive p.ctx .passive s0.sid h
+      have : t = s0 := eq_of_sid hi.sids ht h0 ht1
+      rw [this] at ht2
+      exact ⟨rfl, hi.owner s0 h0 (a, p) hm ht2⟩
 
 theorem adminState_ok (kind : Spec.Api) (st st' : St) (a : Ip) (p : Peer)
     (hdel : kind = .delete → plookup a st'.peers = none)
@@ -1082,36 +1404,40 @@ theorem adminState_ok (kind : Spec.Api) (st st' : St) (a : Ip) (p : Peer)
     have := hoth (Or.inr rfl)
     cases hq : plookup a st'.peers <;> simp_all [Spec.adminStateOk, snapRow]
 
-theorem sim_api_some (gl : GlobalCfg) (groups : List Group) (st st' : St) (σ : Spec.S) (kind : Spec.Api) (a : Ip) (k : Nat)
-    (hc : Coupled gl groups st σ) (hi : Inv st) (hi' : Inv st') (p : Peer) (hl : plookup a st.peers = some p)
-    (forced : Bool) (hf : ApiFacts st st' a p forced) (hkind : forced = true → kind ≠ .enable)
+theorem sim_api_some (gl : GlobalCfg) (groups : List Group) (adm : Bool) (st st' : St) (σ : Spec.S) (kind : Spec.Api) (a : Ip) (k : Nat)
+    (hc : Coupled gl groups adm st σ) (hi : Inv st) (hi' : Inv st') (p : Peer) (hl : plookup a st.peers = some p)
+    (forced : Bool) (hf : ApiFacts st st' a p forced)
+    (hforced : Spec.tearsDown kind (some (snapRow st (a, p))) = forced)
     (hdel : kind = .delete → plookup a st'.peers = none)
     (hen : kind = .enable → (plookup a st'.peers).map (·.adminDown) = some false)
     (hdis : kind = .disable → (plookup a st'.peers).map (·.adminDown) = some true)
     (hoth : (kind = .shutdown ∨ kind = .reset) → (plookup a st'.peers).map (·.adminDown) = some p.adminDown) :
-    ∃ σ', Spec.checkApi k σ kind a { res := .api true, snap := snapshot st' } = (.ok, σ') ∧ Coupled gl groups st' σ' := by
+    ∃ σ', Spec.checkApi k σ kind a { res := .api true, snap := snapshot st' } = (.ok, σ') ∧
+      Coupled gl groups (adm || admKind kind) st' σ' := by
   have hm := plookup_mem a p st.peers hl
   have hrow : Spec.rowOf σ.rows a = some (snapRow st (a, p)) := by rw [rowOf_coupled hc hi a, hl]; rfl
   have hrow' : Spec.rowOf (snapshot st') a = (plookup a st'.peers).map (fun q => snapRow st' (a, q)) :=
     rowOf_snapshot st' hi'.core.keys a
+  have hkindf : forced = true → kind ≠ .enable := by
+    intro h e; rw [e] at hforced; simp only [Spec.tearsDown] at hforced; rw [h] at hforced; cases hforced
   -- which sessions the checker marks as closing
-  let L := if (kind = .enable) then σ.live else Spec.closeAll σ.live a
+  let L := if forced then Spec.closeAll σ.live a else σ.live
   have hL1 : L.map lcore = σ.live.map lcore := by
-    show (if (kind = .enable) then σ.live else Spec.closeAll σ.live a).map lcore = _
+    show (if forced then Spec.closeAll σ.live a else σ.live).map lcore = _
     split
-    · rfl
     · exact closeAll_lcore _ _
+    · rfl
   have hL2 : ∀ y ∈ L, ∃ y0 ∈ σ.live, y0.sid = y.sid ∧ y0.addr = y.addr ∧ y0.role = y.role ∧
-      (y.closing = false → y0.closing = false ∧ (kind ≠ .enable → y.addr ≠ a)) := by
+      (y.closing = false → y0.closing = false ∧ (forced = true → y.addr ≠ a)) := by
     intro y hy
-    have hy' : y ∈ (if (kind = .enable) then σ.live else Spec.closeAll σ.live a) := hy
-    by_cases hk : kind = .enable
-    · rw [if_pos hk] at hy'; exact ⟨y, hy', rfl, rfl, rfl, fun h => ⟨h, fun h' => absurd hk h'⟩⟩
-    · rw [if_neg hk] at hy'
+    have hy' : y ∈ (if forced then Spec.closeAll σ.live a else σ.live) := hy
+    by_cases hk : forced = true
+    · rw [if_pos hk] at hy'
       obtain ⟨y0, h0, e1, e2, e3, e4⟩ := mem_closeAll _ _ y hy'
       exact ⟨y0, h0, e1, e2, e3, fun h => ⟨(e4 h).1, fun _ => (e4 h).2⟩⟩
+    · rw [if_neg hk] at hy'; exact ⟨y, hy', rfl, rfl, rfl, fun h => ⟨h, fun h' => absurd h' hk⟩⟩
   have hLlive : L.map lcore = st'.live.map score := by rw [hL1, hc.live, hf.score]
-  have hcoup := coupled_api gl groups st st' σ L hc hi.core.keys hi'.core.keys hf.glob hf.next hf.score hf.core hf.peers hL1
+  have hcoup := coupled_api gl groups adm (adm || admKind kind) st st' σ L hc hi.core.keys hi'.core.keys hf.glob hf.next hf.score hf.core hf.peers hL1
     (fun y hy => by obtain ⟨y0, h0, e1, e2, e3, e4⟩ := hL2 y hy; exact ⟨y0, h0, e1, e2, e3, fun h => (e4 h).1⟩)
     (by
       intro y hy hyc q hq
@@ -1122,16 +1448,51 @@ theorem sim_api_some (gl : GlobalCfg) (groups : List Group) (st st' : St) (σ : 
       | true =>
         right
         intro hqc
-        have hne := (e4 hyc).2 (hkind hfc)
+        have hne := (e4 hyc).2 hfc
         have := hi.core.ctxInj _ (plookup_mem _ _ _ hq) _ hm hqc
         injection this with h1 _
         exact hne h1)
+    (by
+      -- a close reason waiting ⇒ known as closing
+      intro s' hs' hd y hy hys
+      obtain ⟨s0, h0, e0, hor⟩ := hf.doom s' hs' hd
+      obtain ⟨y0, hy0, e1, e2, _, e4⟩ := hL2 y hy
+      cases hcl : y.closing with
+      | true => rfl
+      | false =>
+        exfalso
+        rcases hor with h | ⟨hfc, haddr⟩
+        · have := hc.doomed s0 h0 h y0 hy0 (by rw [e1, hys, e0])
+          rw [(e4 hcl).1] at this; cases this
+        · -- torn down just now: its address is `a`, so it was marked
+          obtain ⟨s1, hs1, hcs⟩ := live_mem_of_spec hc.live y0 hy0
+          simp only [lcore, score, Prod.mk.injEq] at hcs
+          have : s1 = s0 := eq_of_sid hi.core.sids hs1 h0 (by rw [← hcs.1, e1, hys, e0])
+          have hya : y.addr = a := by rw [← e2, hcs.2.1, this, haddr]
+          exact (e4 hcl).2 hfc hya)
+    (by
+      intro hadm
+      have ha : adm = false := by cases h : adm <;> simp_all
+      have hke : kind = .enable := by
+        cases kind <;> simp_all [admKind]
+      have hnf : forced = false := by
+        rw [← hforced, hke]; rfl
+      obtain ⟨q1, q2, q3⟩ := hc.quiet ha
+      refine ⟨?_, q2, q3⟩
+      intro y hy
+      have hy' : y ∈ (if forced then Spec.closeAll σ.live a else σ.live) := hy
+      rw [hnf] at hy'
+      simp only [Bool.false_eq_true, if_false] at hy'
+      refine ⟨q1 y hy', ?_⟩
+      obtain ⟨q, hq1, _⟩ := hc.healthy y hy' (q1 y hy') (by rw [q3]; simp)
+      obtain ⟨e', he', hk'⟩ := hf.keep hnf _ (plookup_mem _ _ _ hq1)
+      have : e'.1 = y.addr := hk'
+      rw [← this, plookup_of_mem e'.1 e'.2 st'.peers hi'.core.keys (by cases e'; exact he')]; rfl)
   refine ⟨_, ?_, hcoup⟩
   unfold Spec.checkApi
   have c3 : Spec.dynRowsHaveConn (snapshot st') L = true := dynRows_ok _ _ hi' hLlive
-  have hLeq : (if (decide (kind = .enable) || (some (snapRow st (a, p))).isNone) = true then σ.live else Spec.closeAll σ.live a) = L := by
-    show _ = (if (kind = .enable) then σ.live else Spec.closeAll σ.live a)
-    by_cases hk : kind = .enable <;> simp [hk]
+  have hLeq : (if Spec.tearsDown kind (some (snapRow st (a, p))) = true then Spec.closeAll σ.live a else σ.live) = L := by
+    rw [hforced]
   simp only [hrow, Option.isSome_some]
   rw [hLeq]
   simp only [c3]
@@ -1140,30 +1501,41 @@ theorem sim_api_some (gl : GlobalCfg) (groups : List Group) (st st' : St) (σ : 
     exact adminState_ok kind st st' a p hdel hen hdis hoth
   simp only [c2, Spec.firstFail, decide_true]
 
-
-theorem sim_api_none (gl : GlobalCfg) (groups : List Group) (st : St) (σ : Spec.S) (kind : Spec.Api) (a : Ip) (k : Nat)
-    (hc : Coupled gl groups st σ) (hi : Inv st) (hl : plookup a st.peers = none) :
-    ∃ σ', Spec.checkApi k σ kind a { res := .api false, snap := snapshot st } = (.ok, σ') ∧ Coupled gl groups st σ' := by
+theorem sim_api_none (gl : GlobalCfg) (groups : List Group) (adm : Bool) (st : St) (σ : Spec.S) (kind : Spec.Api) (a : Ip) (k : Nat)
+    (hc : Coupled gl groups adm st σ) (hi : Inv st) (hl : plookup a st.peers = none) :
+    ∃ σ', Spec.checkApi k σ kind a { res := .api false, snap := snapshot st } = (.ok, σ') ∧
+      Coupled gl groups (adm || admKind kind) st σ' := by
   have hrow : Spec.rowOf σ.rows a = none := by rw [rowOf_coupled hc hi a, hl]; rfl
   have hrow' : Spec.rowOf (snapshot st) a = none := by rw [rowOf_snapshot st hi.core.keys, hl]; rfl
-  have hcoup := coupled_api gl groups st st σ σ.live hc hi.core.keys hi.core.keys ⟨rfl, rfl, rfl, rfl⟩ rfl rfl rfl
+  have hcoup := coupled_api gl groups adm (adm || admKind kind) st st σ σ.live hc hi.core.keys hi.core.keys ⟨rfl, rfl, rfl, rfl⟩ rfl rfl rfl
     (fun e he => ⟨e, he, rfl, rfl, rfl⟩) rfl (fun y hy => ⟨y, hy, rfl, rfl, rfl, fun h => h⟩) (fun _ _ _ _ _ => rfl)
+    (fun s hs hd y hy hys => hc.doomed s hs hd y hy hys)
+    (by
+      intro hadm
+      have ha : adm = false := by cases h : adm <;> simp_all
+      obtain ⟨q1, q2, q3⟩ := hc.quiet ha
+      refine ⟨?_, q2, q3⟩
+      intro y hy
+      refine ⟨q1 y hy, ?_⟩
+      obtain ⟨q, hq1, _⟩ := hc.healthy y hy (q1 y hy) (by rw [q3]; simp)
+      rw [hq1]; rfl)
   refine ⟨_, ?_, hcoup⟩
   unfold Spec.checkApi
   have c3 : Spec.dynRowsHaveConn (snapshot st) σ.live = true := dynRows_ok _ _ hi hc.live
   have c2 : Spec.adminStateOk kind none none = true := by cases kind <;> simp [Spec.adminStateOk, Spec.imp]
-  simp only [hrow, hrow', Option.isSome_none, Option.isNone_none, Bool.or_true, if_true, c2, c3, Spec.firstFail, decide_true]
+  have ht : Spec.tearsDown kind none = false := by cases kind <;> simp [Spec.tearsDown]
+  simp only [hrow, hrow', ht, Option.isSome_none, Bool.false_eq_true, if_false, c2, c3, Spec.firstFail, decide_true]
 
-theorem sim_api (gl : GlobalCfg) (groups : List Group) (st : St) (σ : Spec.S) (kind : Spec.Api) (a : Ip) (k : Nat)
-    (hc : Coupled gl groups st σ) (hi : Inv st) :
+theorem sim_api (gl : GlobalCfg) (groups : List Group) (adm : Bool) (st : St) (σ : Spec.S) (kind : Spec.Api) (a : Ip) (k : Nat)
+    (hc : Coupled gl groups adm st σ) (hi : Inv st) :
     ∃ σ', Spec.checkApi k σ kind a { res := (apiOp st a (apiF kind a)).2, snap := snapshot (apiOp st a (apiF kind a)).1 } = (.ok, σ') ∧
-      Coupled gl groups (apiOp st a (apiF kind a)).1 σ' := by
+      Coupled gl groups (adm || admKind kind) (apiOp st a (apiF kind a)).1 σ' := by
   have hi' : Inv (apiOp st a (apiF kind a)).1 :=
     inv_step st (apiOpOf kind a) hi _ _ _ (step_api st kind a)
   cases hl : plookup a st.peers with
   | none =>
     simp only [apiOp, hl]
-    exact sim_api_none gl groups st σ kind a k hc hi hl
+    exact sim_api_none gl groups adm st σ kind a k hc hi hl
   | some p =>
     simp only [apiOp, hl] at hi' ⊢
     have hm := plookup_mem a p st.peers hl
@@ -1174,13 +1546,19 @@ theorem sim_api (gl : GlobalCfg) (groups : List Group) (st : St) (σ : Spec.S) (
       rcases (mem_pset a _ e st.peers hi.core.keys).mp he with ⟨h1, _⟩ | ⟨h1, _⟩
       · exact ⟨e, h1, rfl, rfl, rfl⟩
       · exact ⟨(a, p), hm, by rw [h1], by rw [h1], by rw [h1]⟩
+    have hkeepP : ∀ b, false = false → ∀ e ∈ st.peers, ∃ e' ∈ pset a { p with adminDown := b } st.peers, e'.1 = e.1 := by
+      intro b _ e he
+      have : e.1 ∈ (pset a { p with adminDown := b } st.peers).map (·.1) := by
+        rw [keys_pset]; exact List.mem_map.mpr ⟨e, he, rfl⟩
+      obtain ⟨e', he', hk⟩ := List.mem_map.mp this
+      exact ⟨e', he', hk⟩
     cases kind with
     | enable =>
       simp only [apiF] at hi' ⊢
       by_cases had : p.adminDown = true
       · simp only [had, if_true] at hi' ⊢
-        apply sim_api_some gl groups st _ σ .enable a k hc hi hi' p hl false
-          ⟨⟨rfl, rfl, rfl, rfl⟩, rfl, rfl, rfl, hpsetP false, fun _ _ => rfl⟩ (fun h => by cases h)
+        apply sim_api_some gl groups adm st _ σ .enable a k hc hi hi' p hl false
+          ⟨⟨rfl, rfl, rfl, rfl⟩, rfl, rfl, rfl, hpsetP false, fun _ _ => rfl, fun s' hs' hd => ⟨s', hs', rfl, Or.inl hd⟩, hkeepP false⟩ (by simp [Spec.tearsDown])
         · intro h; cases h
         · intro _; show (plookup a (pset a _ st.peers)).map (·.adminDown) = some false
           rw [plookup_pset a _ st.peers hkey]; rfl
@@ -1188,8 +1566,8 @@ theorem sim_api (gl : GlobalCfg) (groups : List Group) (st : St) (σ : Spec.S) (
         · intro h; rcases h with h | h <;> cases h
       · have had' : p.adminDown = false := by cases h : p.adminDown <;> simp_all
         simp only [had', Bool.false_eq_true, if_false] at hi' ⊢
-        apply sim_api_some gl groups st _ σ .enable a k hc hi hi' p hl false
-          ⟨⟨rfl, rfl, rfl, rfl⟩, rfl, rfl, rfl, fun e he => ⟨e, he, rfl, rfl, rfl⟩, fun _ _ => rfl⟩ (fun h => by cases h)
+        apply sim_api_some gl groups adm st _ σ .enable a k hc hi hi' p hl false
+          ⟨⟨rfl, rfl, rfl, rfl⟩, rfl, rfl, rfl, fun e he => ⟨e, he, rfl, rfl, rfl⟩, fun _ _ => rfl, fun s' hs' hd => ⟨s', hs', rfl, Or.inl hd⟩, fun _ e he => ⟨e, he, rfl⟩⟩ (by simp [Spec.tearsDown, snapRow, *])
         · intro h; cases h
         · intro _; rw [hl]; simp [had']
         · intro h; cases h
@@ -1198,16 +1576,16 @@ theorem sim_api (gl : GlobalCfg) (groups : List Group) (st : St) (σ : Spec.S) (
       simp only [apiF] at hi' ⊢
       by_cases had : p.adminDown = true
       · simp only [had, Bool.not_true, Bool.false_eq_true, if_false] at hi' ⊢
-        apply sim_api_some gl groups st _ σ .disable a k hc hi hi' p hl false
-          ⟨⟨rfl, rfl, rfl, rfl⟩, rfl, rfl, rfl, fun e he => ⟨e, he, rfl, rfl, rfl⟩, fun _ _ => rfl⟩ (fun h => by cases h)
+        apply sim_api_some gl groups adm st _ σ .disable a k hc hi hi' p hl false
+          ⟨⟨rfl, rfl, rfl, rfl⟩, rfl, rfl, rfl, fun e he => ⟨e, he, rfl, rfl, rfl⟩, fun _ _ => rfl, fun s' hs' hd => ⟨s', hs', rfl, Or.inl hd⟩, fun _ e he => ⟨e, he, rfl⟩⟩ (by simp [Spec.tearsDown, snapRow, *])
         · intro h; cases h
         · intro h; cases h
         · intro _; rw [hl]; simp [had]
         · intro h; rcases h with h | h <;> cases h
       · have had' : p.adminDown = false := by cases h : p.adminDown <;> simp_all
         simp only [had', Bool.not_false, if_true] at hi' ⊢
-        apply sim_api_some gl groups st _ σ .disable a k hc hi hi' p hl true
-          (facts_forceDown st _ a p .admin ⟨rfl, rfl, rfl, rfl⟩ rfl rfl rfl (hpsetP true)) (fun _ h => by cases h)
+        apply sim_api_some gl groups adm st _ σ .disable a k hc hi hi' p hl true
+          (facts_forceDown st _ a p .admin hi.core hm ⟨rfl, rfl, rfl, rfl⟩ rfl rfl rfl (hpsetP true)) (by simp [Spec.tearsDown, snapRow, had'])
         · intro h; cases h
         · intro h; cases h
         · intro _
@@ -1217,8 +1595,8 @@ theorem sim_api (gl : GlobalCfg) (groups : List Group) (st : St) (σ : Spec.S) (
         · intro h; rcases h with h | h <;> cases h
     | shutdown =>
       simp only [apiF] at hi' ⊢
-      apply sim_api_some gl groups st _ σ .shutdown a k hc hi hi' p hl true
-        (facts_forceDown st st a p .admin ⟨rfl, rfl, rfl, rfl⟩ rfl rfl rfl (fun e he => ⟨e, he, rfl, rfl, rfl⟩)) (fun _ h => by cases h)
+      apply sim_api_some gl groups adm st _ σ .shutdown a k hc hi hi' p hl true
+        (facts_forceDown st st a p .admin hi.core hm ⟨rfl, rfl, rfl, rfl⟩ rfl rfl rfl (fun e he => ⟨e, he, rfl, rfl, rfl⟩)) (by simp [Spec.tearsDown])
       · intro h; cases h
       · intro h; cases h
       · intro h; cases h
@@ -1227,8 +1605,8 @@ theorem sim_api (gl : GlobalCfg) (groups : List Group) (st : St) (σ : Spec.S) (
         rw [this, hl]; rfl
     | reset =>
       simp only [apiF] at hi' ⊢
-      apply sim_api_some gl groups st _ σ .reset a k hc hi hi' p hl true
-        (facts_forceDown st st a p .deconf ⟨rfl, rfl, rfl, rfl⟩ rfl rfl rfl (fun e he => ⟨e, he, rfl, rfl, rfl⟩)) (fun _ h => by cases h)
+      apply sim_api_some gl groups adm st _ σ .reset a k hc hi hi' p hl true
+        (facts_forceDown st st a p .deconf hi.core hm ⟨rfl, rfl, rfl, rfl⟩ rfl rfl rfl (fun e he => ⟨e, he, rfl, rfl, rfl⟩)) (by simp [Spec.tearsDown])
       · intro h; cases h
       · intro h; cases h
       · intro h; cases h
@@ -1237,9 +1615,9 @@ theorem sim_api (gl : GlobalCfg) (groups : List Group) (st : St) (σ : Spec.S) (
         rw [this, hl]; rfl
     | delete =>
       simp only [apiF] at hi' ⊢
-      apply sim_api_some gl groups st _ σ .delete a k hc hi hi' p hl true
-        (facts_forceDown st _ a p .deconf ⟨rfl, rfl, rfl, rfl⟩ rfl rfl rfl
-          (fun e he => ⟨e, ((mem_perase _ _ _).mp he).1, rfl, rfl, rfl⟩)) (fun _ h => by cases h)
+      apply sim_api_some gl groups adm st _ σ .delete a k hc hi hi' p hl true
+        (facts_forceDown st _ a p .deconf hi.core hm ⟨rfl, rfl, rfl, rfl⟩ rfl rfl rfl
+          (fun e he => ⟨e, ((mem_perase _ _ _).mp he).1, rfl, rfl, rfl⟩)) (by simp [Spec.tearsDown])
       · intro _
         have : (forceDown { st with peers := perase a st.peers } p.ctx .deconf).peers = perase a st.peers := rfl
         rw [this]; exact plookup_perase a st.peers
@@ -1252,21 +1630,41 @@ theorem sim_api (gl : GlobalCfg) (groups : List Group) (st : St) (σ : Spec.S) (
 
 def OpsOk (ops : List Op) : Prop := ∀ op ∈ ops, ∀ a r, op = .connect a r → bytesOk a.bytes
 
-theorem api_steps (gl : GlobalCfg) (groups : List Group) (kind : Spec.Api) (a : Ip) (k : Nat) (st : St) (σ : Spec.S)
-    (hc : Coupled gl groups st σ) (hi : Inv st) :
-    ∃ σ', Spec.checkApi k σ kind a { res := (apiOp st a (apiF kind a)).2, snap := snapshot (apiOp st a (apiF kind a)).1 } = (.ok, σ') ∧
-      Coupled gl groups (apiOp st a (apiF kind a)).1 σ' ∧ Inv (apiOp st a (apiF kind a)).1 :=
-  let ⟨σ', h1, h2⟩ := sim_api gl groups st σ kind a k hc hi
-  ⟨σ', h1, h2, inv_step st (apiOpOf kind a) hi _ _ _ (step_api st kind a)⟩
+/-- operations that can tear a connection down -/
+def admOp : Op → Bool
+  | .disable _ | .delete _ | .shutdown _ | .reset _ => true
+  | _ => false
+
+def HitOr (adm : Bool) (v : Spec.Verdict) : Prop :=
+  v = .ok ∨ ∃ kk c, v = .fail kk c ∧ c ∈ hitClauses ∧ adm = true
+
+theorem finish_ok {gl groups adm st σ} (hc : Coupled gl groups adm st σ) : HitOr adm (Spec.finish σ) := by
+  unfold Spec.finish
+  cases hh : σ.hit with
+  | none => exact Or.inl rfl
+  | some x =>
+    obtain ⟨kk, c⟩ := x
+    right
+    refine ⟨kk, c, rfl, hc.hitOk kk c hh, ?_⟩
+    cases ha : adm with
+    | true => rfl
+    | false => have := (hc.quiet ha).2.1; rw [hh] at this; cases this
+
+theorem hitOr_mono {a b : Bool} {v : Spec.Verdict} (h : HitOr a v) (hab : a = true → b = true) : HitOr b v := by
+  rcases h with h | ⟨kk, c, h1, h2, h3⟩
+  · exact Or.inl h
+  · exact Or.inr ⟨kk, c, h1, h2, hab h3⟩
 
 theorem sim_steps (gl : GlobalCfg) (groups : List Group) (hwf : WFGroups groups) (hcid : confedIdOk gl.confed) :
-    ∀ (ops : List Op) (st : St) (σ : Spec.S) (k : Nat) (obs : List StepObs),
-      Coupled gl groups st σ → Inv st → OpsOk ops → runOps st ops = .ok obs →
-      Spec.checkSteps gl groups k σ ops obs = .ok ∨ KnownFail (Spec.checkSteps gl groups k σ ops obs)
-  | [], st, σ, k, obs, _, _, _, h => by
+    ∀ (ops : List Op) (adm : Bool) (st : St) (σ : Spec.S) (k : Nat) (obs : List StepObs),
+      Coupled gl groups adm st σ → Inv st → OpsOk ops → runOps st ops = .ok obs →
+      HitOr (adm || ops.any admOp) (Spec.checkSteps gl groups k σ ops obs)
+  | [], adm, st, σ, k, obs, hc, _, _, h => by
     simp only [runOps, Out.ok.injEq] at h
-    subst h; left; rfl
-  | op :: rest, st, σ, k, obs, hc, hi, hok, h => by
+    subst h
+    simp only [Spec.checkSteps, List.any_nil, Bool.or_false]
+    exact finish_ok hc
+  | op :: rest, adm, st, σ, k, obs, hc, hi, hok, h => by
     have hok' : OpsOk rest := fun o ho => hok o (List.mem_cons_of_mem _ ho)
     simp only [runOps, bind, Bind.bind] at h
     cases hs : step st op with
@@ -1276,58 +1674,62 @@ theorem sim_steps (gl : GlobalCfg) (groups : List Group) (hwf : WFGroups groups)
       simp only [hs] at h
       have hi' := inv_step st op hi st' r abort hs
       -- the tail of the observation
-      have tail_ok : ∀ (σ' : Spec.S), abort = false → Coupled gl groups st' σ' →
+      have tail_ok : ∀ (adm' : Bool) (σ' : Spec.S), abort = false → Coupled gl groups adm' st' σ' →
+          (adm' = true → (adm || admOp op) = true) →
           ∃ tl, obs = { res := r, snap := snapshot st' } :: tl ∧
-            (Spec.checkSteps gl groups (k + 1) σ' rest tl = .ok ∨ KnownFail (Spec.checkSteps gl groups (k + 1) σ' rest tl)) := by
-        intro σ' hab hc'
+            HitOr (adm || (op :: rest).any admOp) (Spec.checkSteps gl groups (k + 1) σ' rest tl) := by
+        intro adm' σ' hab hc' hadm'
         subst hab
         simp only [Bool.false_eq_true, if_false] at h
         cases hr : runOps st' rest with
         | panic => simp [hr] at h
         | ok tl =>
           simp only [hr, pure, Out.ok.injEq] at h
-          exact ⟨tl, h.symm, sim_steps gl groups hwf hcid rest st' σ' (k + 1) tl hc' hi' hok' hr⟩
+          refine ⟨tl, h.symm, hitOr_mono (sim_steps gl groups hwf hcid rest adm' st' σ' (k + 1) tl hc' hi' hok' hr) ?_⟩
+          intro hh
+          simp only [List.any_cons, Bool.or_eq_true] at hh ⊢
+          rcases hh with hh | hh
+          · have := hadm' hh
+            simp only [Bool.or_eq_true] at this
+            rcases this with t | t
+            · exact Or.inl t
+            · exact Or.inr (Or.inl t)
+          · exact Or.inr (Or.inr hh)
       cases op with
       | connect a role =>
         have ha := hok _ (by simp) a role rfl
-        rcases sim_connect gl groups st σ a role k hc hi hwf ha hcid st' r abort hs with ⟨σ', e1, e2⟩ | hk
-        · cases hab : abort with
-          | true =>
-            subst hab
-            simp only [if_true, pure, Out.ok.injEq] at h e1
-            subst h
-            left
-            simp only [Spec.checkSteps, e1, if_true]
+        obtain ⟨σ', e1, e2, e3⟩ := sim_connect gl groups adm st σ a role k hc hi hwf ha hcid st' r abort hs
+        cases hab : abort with
+        | true =>
+          subst hab
+          simp only [if_true, pure, Out.ok.injEq] at h e1
+          subst h
+          have hσ := e3 rfl
+          subst hσ
+          simp only [Spec.checkSteps, e1, if_true]
+          have : ((List.map (fun _ => ({ res := Res.aborted, snap := [] } : StepObs)) rest).all (fun x => decide (x.res = Res.aborted)) &&
+              decide ((List.map (fun _ => ({ res := Res.aborted, snap := [] } : StepObs)) rest).length = rest.length)) = true := by
             simp [List.all_eq_true]
-          | false =>
-            subst hab
-            obtain ⟨tl, rfl, htl⟩ := tail_ok σ' rfl (e2 rfl)
-            simp only [Bool.false_eq_true, if_false] at e1
-            simp only [Spec.checkSteps, e1, Bool.false_eq_true, if_false]
-            exact htl
-        · right
-          have hobs : ∃ tl, obs = { res := r, snap := if abort then [] else snapshot st' } :: tl := by
-            cases hab : abort with
-            | true => subst hab; simp only [if_true, pure, Out.ok.injEq] at h; exact ⟨_, h.symm⟩
-            | false =>
-              subst hab
-              simp only [Bool.false_eq_true, if_false] at h
-              cases hr : runOps st' rest with
-              | panic => simp [hr] at h
-              | ok tl => simp only [hr, pure, Out.ok.injEq] at h; exact ⟨tl, h.symm⟩
-          obtain ⟨tl, rfl⟩ := hobs
-          obtain ⟨kk, hkk⟩ := hk
-          simp only [Spec.checkSteps]
-          generalize hcc : Spec.checkConnect gl groups k σ a role { res := r, snap := if abort = true then [] else snapshot st' } = cc at hkk
-          obtain ⟨v, σ2, stop⟩ := cc
-          simp only at hkk
-          subst hkk
-          exact ⟨kk, rfl⟩
+          simp only [this, if_true]
+          exact hitOr_mono (finish_ok hc) (fun h => by simp [h])
+        | false =>
+          subst hab
+          obtain ⟨tl, rfl, htl⟩ := tail_ok adm σ' rfl (e2 rfl) (fun h => by simp [h])
+          simp only [Bool.false_eq_true, if_false] at e1
+          simp only [Spec.checkSteps, e1, Bool.false_eq_true, if_false]
+          exact htl
       | disc sid =>
         simp only [step, Out.ok.injEq, Prod.mk.injEq] at hs
         obtain ⟨rfl, rfl, rfl⟩ := hs
-        obtain ⟨σ', e1, e2⟩ := sim_disc gl groups st σ sid k hc hi
-        obtain ⟨tl, rfl, htl⟩ := tail_ok σ' rfl e2
+        obtain ⟨σ', e1, e2⟩ := sim_disc gl groups adm st σ sid k none hc hi
+        obtain ⟨tl, rfl, htl⟩ := tail_ok adm σ' rfl e2 (fun h => by simp [h])
+        simp only [Spec.checkSteps, e1, Spec.Verdict.andThen]
+        exact htl
+      | discx sid asn hold =>
+        simp only [step, Out.ok.injEq, Prod.mk.injEq] at hs
+        obtain ⟨rfl, rfl, rfl⟩ := hs
+        obtain ⟨σ', e1, e2⟩ := sim_disc gl groups adm st σ sid k (some asn) hc hi
+        obtain ⟨tl, rfl, htl⟩ := tail_ok adm σ' rfl e2 (fun h => by simp [h])
         simp only [Spec.checkSteps, e1, Spec.Verdict.andThen]
         exact htl
       | enable a =>
@@ -1336,8 +1738,8 @@ theorem sim_steps (gl : GlobalCfg) (groups : List Group) (hwf : WFGroups groups)
         rw [hs'] at hs
         simp only [Out.ok.injEq, Prod.mk.injEq] at hs
         obtain ⟨rfl, rfl, rfl⟩ := hs
-        obtain ⟨σ', e1, e2, _⟩ := api_steps gl groups .enable a k st σ hc hi
-        obtain ⟨tl, rfl, htl⟩ := tail_ok σ' rfl e2
+        obtain ⟨σ', e1, e2⟩ := sim_api gl groups adm st σ .enable a k hc hi
+        obtain ⟨tl, rfl, htl⟩ := tail_ok _ σ' rfl e2 (fun h => by simpa [admKind, admOp] using h)
         simp only [Spec.checkSteps, e1, Spec.Verdict.andThen]
         exact htl
       | disable a =>
@@ -1346,8 +1748,8 @@ theorem sim_steps (gl : GlobalCfg) (groups : List Group) (hwf : WFGroups groups)
         rw [hs'] at hs
         simp only [Out.ok.injEq, Prod.mk.injEq] at hs
         obtain ⟨rfl, rfl, rfl⟩ := hs
-        obtain ⟨σ', e1, e2, _⟩ := api_steps gl groups .disable a k st σ hc hi
-        obtain ⟨tl, rfl, htl⟩ := tail_ok σ' rfl e2
+        obtain ⟨σ', e1, e2⟩ := sim_api gl groups adm st σ .disable a k hc hi
+        obtain ⟨tl, rfl, htl⟩ := tail_ok _ σ' rfl e2 (fun _ => by simp [admOp])
         simp only [Spec.checkSteps, e1, Spec.Verdict.andThen]
         exact htl
       | delete a =>
@@ -1356,8 +1758,8 @@ theorem sim_steps (gl : GlobalCfg) (groups : List Group) (hwf : WFGroups groups)
         rw [hs'] at hs
         simp only [Out.ok.injEq, Prod.mk.injEq] at hs
         obtain ⟨rfl, rfl, rfl⟩ := hs
-        obtain ⟨σ', e1, e2, _⟩ := api_steps gl groups .delete a k st σ hc hi
-        obtain ⟨tl, rfl, htl⟩ := tail_ok σ' rfl e2
+        obtain ⟨σ', e1, e2⟩ := sim_api gl groups adm st σ .delete a k hc hi
+        obtain ⟨tl, rfl, htl⟩ := tail_ok _ σ' rfl e2 (fun _ => by simp [admOp])
         simp only [Spec.checkSteps, e1, Spec.Verdict.andThen]
         exact htl
       | shutdown a =>
@@ -1366,8 +1768,8 @@ theorem sim_steps (gl : GlobalCfg) (groups : List Group) (hwf : WFGroups groups)
         rw [hs'] at hs
         simp only [Out.ok.injEq, Prod.mk.injEq] at hs
         obtain ⟨rfl, rfl, rfl⟩ := hs
-        obtain ⟨σ', e1, e2, _⟩ := api_steps gl groups .shutdown a k st σ hc hi
-        obtain ⟨tl, rfl, htl⟩ := tail_ok σ' rfl e2
+        obtain ⟨σ', e1, e2⟩ := sim_api gl groups adm st σ .shutdown a k hc hi
+        obtain ⟨tl, rfl, htl⟩ := tail_ok _ σ' rfl e2 (fun _ => by simp [admOp])
         simp only [Spec.checkSteps, e1, Spec.Verdict.andThen]
         exact htl
       | reset a =>
@@ -1376,11 +1778,10 @@ theorem sim_steps (gl : GlobalCfg) (groups : List Group) (hwf : WFGroups groups)
         rw [hs'] at hs
         simp only [Out.ok.injEq, Prod.mk.injEq] at hs
         obtain ⟨rfl, rfl, rfl⟩ := hs
-        obtain ⟨σ', e1, e2, _⟩ := api_steps gl groups .reset a k st σ hc hi
-        obtain ⟨tl, rfl, htl⟩ := tail_ok σ' rfl e2
+        obtain ⟨σ', e1, e2⟩ := sim_api gl groups adm st σ .reset a k hc hi
+        obtain ⟨tl, rfl, htl⟩ := tail_ok _ σ' rfl e2 (fun _ => by simp [admOp])
         simp only [Spec.checkSteps, e1, Spec.Verdict.andThen]
         exact htl
-
 
 /-! ### configuration loading -/
 
@@ -1415,6 +1816,19 @@ theorem setup_glob : ∀ (pcs : List PeerCase) (st : St),
       · exact hc c hcm
       · simpa using hcm
 
+theorem polOk_eq (pol : Option (Bool × List String)) : polOk pol = Spec.policiesExist pol := by
+  cases pol with
+  | none => rfl
+  | some x =>
+    obtain ⟨b, names⟩ := x
+    simp only [polOk, Spec.policiesExist, knownPolicies]
+    congr 1; funext n
+    simp [List.contains_cons, Bool.or_comm]
+
+theorem resolve_pol (groups : List Group) (pc : PeerCase) : (resolveParams groups pc).pol = pc.params.pol := by
+  unfold resolveParams
+  cases pc.group.bind (findGroup groups) <;> simp [applyPeerGroup]
+
 theorem resolve_addr (groups : List Group) (pc : PeerCase) :
     (resolveParams groups pc).addr = pc.params.addr ∧ (resolveParams groups pc).adminDown = pc.params.adminDown := by
   unfold resolveParams
@@ -1443,19 +1857,37 @@ theorem setup_check (gl : GlobalCfg) (groups : List Group) (hcid : confedIdOk gl
     cases ha : addPeer st (resolveParams st.groups pc) with
     | none =>
       simp only [ha] at hrows ⊢
-      have hin : taken.contains pc.params.addr = true := by
-        rw [htk]
-        unfold addPeer at ha
-        rw [ra] at ha
-        cases hl : plookup pc.params.addr st.peers with
-        | none => simp [hl] at ha
-        | some p => exact List.mem_map.mpr ⟨_, plookup_mem _ _ _ hl, rfl⟩
-      simp only [Spec.checkSetup, hin, if_true, Bool.false_eq_true, if_false]
-      exact setup_check gl groups hcid rows rest st taken htk hg (fun p hp => hdyn p (List.mem_cons_of_mem _ hp)) hrows
+      have hrec := setup_check gl groups hcid rows rest st taken htk hg (fun p hp => hdyn p (List.mem_cons_of_mem _ hp)) hrows
+      unfold addPeer at ha
+      rw [ra, resolve_pol, polOk_eq] at ha
+      cases hl : plookup pc.params.addr st.peers with
+      | some p =>
+        have hin : taken.contains pc.params.addr = true := by
+          rw [htk]; exact List.mem_map.mpr ⟨_, plookup_mem _ _ _ hl, rfl⟩
+        simp only [Spec.checkSetup, hin, if_true, Bool.false_eq_true, if_false]
+        exact hrec
+      | none =>
+        have hnin : taken.contains pc.params.addr = false := by
+          cases hh : taken.contains pc.params.addr with
+          | false => rfl
+          | true => exact absurd ((htk _).mp hh) ((plookup_none _ _).mp hl)
+        have hpol : Spec.policiesExist pc.params.pol = false := by
+          cases hp : Spec.policiesExist pc.params.pol with
+          | false => rfl
+          | true => simp [hl, hp] at ha
+        simp only [Spec.checkSetup, hnin, hpol, Bool.false_eq_true, if_false, Bool.not_false, if_true]
+        exact hrec
     | some st' =>
       simp only [ha] at hrows ⊢
       obtain ⟨hnone, heq⟩ := addPeer_eq st _ st' ha
       rw [ra] at hnone
+      have hpol : Spec.policiesExist pc.params.pol = true := by
+        have ha' := ha
+        unfold addPeer at ha'
+        rw [ra, resolve_pol, polOk_eq, hnone] at ha'
+        cases hp : Spec.policiesExist pc.params.pol with
+        | true => rfl
+        | false => simp [hp] at ha'
       have hnin : taken.contains pc.params.addr = false := by
         cases hh : taken.contains pc.params.addr with
         | false => rfl
@@ -1464,7 +1896,7 @@ theorem setup_check (gl : GlobalCfg) (groups : List Group) (hcid : confedIdOk gl
       have hrow := hrows _ (setup_mono rest st' _ hnew)
       have hk1 : (newPeer st (resolveParams st.groups pc)).1 = pc.params.addr := ra
       rw [hk1] at hrow
-      simp only [Spec.checkSetup, hnin, Bool.false_eq_true, if_false, Bool.not_true, hrow]
+      simp only [Spec.checkSetup, hnin, hpol, Bool.false_eq_true, if_false, Bool.not_true, hrow]
       -- the requirements on the stored configuration
       have hcfg := cfgOk_build st.asn st.rid st.confed (resolveParams st.groups pc) (by rw [hg.2.2.1]; exact hcid)
       have hgl : (⟨st.asn, st.rid, st.confed⟩ : GlobalCfg) = gl := by
@@ -1558,7 +1990,7 @@ theorem coupled_init (gl : GlobalCfg) (groups : List Group) (st : St)
     (hg : st.asn = gl.asn ∧ st.rid = gl.rid ∧ st.confed = gl.confed ∧ st.groups = groups)
     (hk : (st.peers.map (·.1)).Nodup) (hlive : st.live = []) (hn : st.nextSid = 0)
     (hdyn : ∀ e ∈ st.peers, e.2.cfg.dyn = false) (hctx : ∀ c ∈ st.ctxs, c = ({} : Ctx)) :
-    Coupled gl groups st
+    Coupled gl groups false st
       { rows := (sortBy (·.addr) (st.peers.map (setupRowOf st.confed))).map toSnap
         known := (sortBy (·.addr) (st.peers.map (setupRowOf st.confed))).map toKnown, live := [], nextSid := 0 } := by
   have hctx' : ∀ j, st.ctx j = {} := by
@@ -1567,7 +1999,8 @@ theorem coupled_init (gl : GlobalCfg) (groups : List Group) (st : St)
     cases h : st.ctxs[j]? with
     | none => rfl
     | some c => exact hctx c (List.mem_of_getElem? h)
-  refine ⟨hg, ?_, hn.symm, by simp [hlive], ?_, ?_, by intro x hx; simp at hx, by intro s hs; rw [hlive] at hs; simp at hs⟩
+  refine ⟨hg, ?_, hn.symm, by simp [hlive], ?_, ?_, by intro x hx; simp at hx, by intro s hs; rw [hlive] at hs; simp at hs,
+    by intro s hs; rw [hlive] at hs; simp at hs, fun _ => ⟨by intro x hx; simp at hx, rfl, rfl⟩, by intro k c h; cases h⟩
   · show (sortBy (·.addr) (st.peers.map (setupRowOf st.confed))).map toSnap = snapshot st
     rw [sortBy_map (·.addr) (·.addr) toSnap (fun _ => rfl), List.map_map]
     unfold snapshot
@@ -1601,12 +2034,12 @@ theorem rows_find (st : St) (hk : (st.peers.map (·.1)).Nodup) (e : Ip × Peer) 
 def HistWF (g : GlobalCfg) (groups : List Group) (peers : List PeerCase) (ops : List Op) : Prop :=
   confedIdOk g.confed ∧ WFGroups groups ∧ (∀ pc ∈ peers, pc.params.dyn = false) ∧ OpsOk ops
 
-/-- **master theorem, histories.**  The reference checker accepts every history the model produces,
-    except that it reports the open finding F16c when a connection is accepted next to a closing
-    connection of the same direction. -/
+/-- **master theorem, histories.**  The reference checker accepts every history the model produces;
+    the only thing it may report is one of the three faces of the open finding F16c, and only in a
+    history that contains a shutdown / reset / disable / delete. -/
 theorem checkHist_model (g : GlobalCfg) (groups : List Group) (peers : List PeerCase) (ops : List Op)
     (hwf : HistWF g groups peers ops) (h : HistObs) (hr : runHist g groups peers ops = .ok h) :
-    Spec.checkHist g groups peers ops h = .ok ∨ KnownFail (Spec.checkHist g groups peers ops h) := by
+    HitOr (ops.any admOp) (Spec.checkHist g groups peers ops h) := by
   obtain ⟨hcid, hgw, hdyn, hops⟩ := hwf
   unfold runHist at hr
   simp only [bind, Bind.bind] at hr
@@ -1641,7 +2074,9 @@ theorem checkHist_model (g : GlobalCfg) (groups : List Group) (peers : List Peer
       simp [this]
     simp only [hlen, Bool.false_eq_true, if_false]
     have hc0 := coupled_init g groups st hglob hinv.core.keys hlive (by rw [g5]; rfl) hstat (g6 (by simp [initSt]))
-    exact sim_steps g groups hgw hcid ops st _ 1 steps hc0 hinv hops hro
+    have := sim_steps g groups hgw hcid ops false st _ 1 steps hc0 hinv hops hro
+    simp only [Bool.false_or] at this
+    exact this
 
 
 /-! ### no history makes the model panic -/
@@ -1667,7 +2102,8 @@ theorem accept_groups (st : St) (a : Ip) (role : Role) (hwf : WFGroups st.groups
       have hadd : ∃ st1, addPeer st (paramsOfGroup g a) = some st1 := by
         unfold addPeer
         have : (paramsOfGroup g a).addr = a := rfl
-        rw [this, hl]; exact ⟨_, rfl⟩
+        have hp : polOk (paramsOfGroup g a).pol = true := rfl
+        rw [this, hl, hp]; exact ⟨_, rfl⟩
       obtain ⟨st1, h1⟩ := hadd
       obtain ⟨_, heq⟩ := addPeer_eq st _ st1 h1
       have h2 : plookup a st1.peers = some (newPeer st (paramsOfGroup g a)).2 := by
@@ -1680,21 +2116,25 @@ theorem accept_groups (st : St) (a : Ip) (role : Role) (hwf : WFGroups st.groups
       rw [(openSession_fields st1 a _ role).2.2.2.2.2.2.1, heq]
     | _ :: _ :: _ => exact ⟨st, _, _, rfl, rfl⟩
 
+theorem disconnect_groups (st : St) (sid : Nat) (reply : Option Nat) : (disconnect st sid reply).1.groups = st.groups := by
+  cases hf : st.live.find? (fun x => x.sid = sid) with
+  | none => rw [disconnect_none st sid reply hf]
+  | some s =>
+    rw [disconnect_eq st sid reply s hf]
+    simp only
+    cases plookup s.addr (afterApply st s).peers with
+    | none => rfl
+    | some p => simp only; split <;> (try split) <;> rfl
+
 theorem step_groups (st : St) (op : Op) (hwf : WFGroups st.groups)
     (hop : ∀ a r, op = .connect a r → bytesOk a.bytes) :
     ∃ st' r b, step st op = .ok (st', r, b) ∧ st'.groups = st.groups := by
   cases op with
   | connect a role => exact accept_groups st a role hwf (hop a role rfl)
   | disc sid =>
-    refine ⟨(disconnect st sid).1, (disconnect st sid).2, false, rfl, ?_⟩
-    cases hf : st.live.find? (fun x => x.sid = sid) with
-    | none => rw [disconnect_none st sid hf]
-    | some s =>
-      rw [disconnect_eq st sid s hf]
-      simp only
-      cases plookup s.addr (afterApply st s).peers with
-      | none => rfl
-      | some p => simp only; split <;> (try split) <;> rfl
+    exact ⟨(disconnect st sid none).1, (disconnect st sid none).2, false, rfl, disconnect_groups st sid none⟩
+  | discx sid asn hold =>
+    exact ⟨(disconnect st sid (some asn)).1, (disconnect st sid (some asn)).2, false, rfl, disconnect_groups st sid (some asn)⟩
   | enable a =>
     refine ⟨(apiOp st a (apiF .enable a)).1, (apiOp st a (apiF .enable a)).2, false, step_api st .enable a, ?_⟩
     simp only [apiOp]; cases plookup a st.peers <;> simp only [apiF] <;> (try split) <;> rfl
